@@ -1,11 +1,17 @@
 (* C02 "a healed network always drains the backlog": proofs.
-   Definitions (two-way system sys2, link_inv, healed_round) are in ProgressBase.v.
+   Definitions (two-way system sys2, link_inv, healed_round, probe_round, drain_round) are in
+   ProgressBase.v, the statements in C02b.v.  Helper names are prefixed pg_.
    1. runs of the two-way system; reach2 one step at a time (pg_reach)
    2. what Net.v's theorems give for every reachable state
    3. between the link invariant and the single-endpoint predicates of ProgressBase.v
    4. link_step / link_reach: the link invariant holds in every reachable state
    5. the healed round, piece by piece
-   6. c02_round_total, c02_round_progress, c02_queue_progress, ... *)
+   6. c02_round_total, c02_round_progress, c02_queue_progress
+   7. the backlog is only renumbered by the round: c02_round (no-wrap bound on the start state)
+   8. zero-window probing: c02_probe_round
+   9. everything accepted so far as a list; the rounds as event lists (c02_round_is_run)
+   10. c02_drains
+   11. c02_delivered, c02_drains_delivered *)
 From Coq Require Import ZArith List Bool Lia.
 From KV.Base Require Import Consts Word WordLemmas.
 From KV.Kcp Require Import Kcp Step Net InvBase InvApi InvInputBase InvInput InvFlushBase InvFlush InvAll
@@ -239,7 +245,7 @@ Qed.
 (* a segment B emitted, as the history records it *)
 Lemma pg_ack_of_bseg s x : conv (kB s) = conv (kA s) -> pg_bseg (isn_of s) (kB s) x -> ack_seg s x.
 Proof.
-  intros Hcv (A & B & C & D & E). split; [exact A|]. split; [congruence|]. split; [exact C|].
+  intros Hcv (A & B & C & D & E & _). split; [exact A|]. split; [congruence|]. split; [exact C|].
   split; [unfold r_idx; rewrite D; lia|exact E].
 Qed.
 
@@ -847,30 +853,37 @@ Proof.
   pose proof (blen_nonneg (s_data s)). destruct (s_frg s =? 0); lia.
 Qed.
 
+Lemma pg_drained_room s :
+  pg_reach s -> no_wrap (numbered_of s) -> peeksize (kB s) < 0 -> b8 s ->
+  qlen (rcv_queue (kB s)) < rcv_wnd (kB s).
+Proof.
+  intros Hr Hnw Hp Hb8.
+  destruct (pg_reach_base s Hr) as (_ & HiB & Hsi & _).
+  pose proof (pg_reach_receiver s Hr Hnw) as HR.
+  pose proof (I_rcv_wnd _ HiB) as Hrw.
+  destruct (RI_nxt _ _ _ HR) as (r & done & _ & _ & Hq & _).
+  destruct (sender_src_wf _ _ Hsi) as [Hwf _]. fold (numbered_of s) in Hwf.
+  unfold peeksize in Hp. destruct (rcv_queue (kB s)) as [|x q] eqn:Eq; [rewrite qlen_nil; lia|].
+  assert (Hin : In (pay x) (numbered_of s)).
+  { cbn [map] in Hq. eapply nr_in_skipn. eapply nr_in_firstn. rewrite <- Hq. left; reflexivity. }
+  pose proof (proj1 (Forall_forall _ _) Hwf _ Hin) as ((W1 & W2) & _).
+  pose proof (proj1 (Forall_forall _ _) Hb8 _ Hin) as W3. unfold pay in W1, W2, W3. cbn [fst] in W1, W2, W3.
+  destruct (s_frg x =? 0); [pose proof (blen_nonneg (s_data x)); lia|].
+  destruct (qlen (x :: q) <? u8 (s_frg x + 1)) eqn:E; lv_b2z.
+  - unfold u8 in E. rewrite Z.mod_small in E by lia. lia.
+  - pose proof (pg_msg_size_nonneg (x :: q)). lia.
+Qed.
+
 Lemma pg_drained_J s :
   pg_reach s -> no_wrap (numbered_of s) -> peeksize (kB s) < 0 -> b8 s ->
   pg_J (isn_of s) (kB s) (a_idx s).
 Proof.
   intros Hr Hnw Hp Hb8.
   pose proof (pg_link_reach s Hr Hnw) as Hl.
-  destruct (pg_reach_base s Hr) as (_ & HiB & Hsi & _).
-  pose proof (pg_reach_receiver s Hr Hnw) as HR.
+  destruct (pg_reach_base s Hr) as (_ & HiB & _).
   destruct (pg_ridx_sys s Hr Hnw) as (Hrn & Hrr).
   destruct (pg_aidx s Hr Hnw) as (_ & Ha0 & HM).
-  pose proof (I_rcv_wnd _ HiB) as Hrw.
-  (* room in the delivery queue *)
-  assert (Hroom : qlen (rcv_queue (kB s)) < rcv_wnd (kB s)).
-  { destruct (RI_nxt _ _ _ HR) as (r & done & _ & _ & Hq & _).
-    destruct (sender_src_wf _ _ Hsi) as [Hwf _]. fold (numbered_of s) in Hwf.
-    unfold peeksize in Hp. destruct (rcv_queue (kB s)) as [|x q] eqn:Eq; [rewrite qlen_nil; lia|].
-    assert (Hin : In (pay x) (numbered_of s)).
-    { cbn [map] in Hq. eapply nr_in_skipn. eapply nr_in_firstn. rewrite <- Hq. left; reflexivity. }
-    pose proof (proj1 (Forall_forall _ _) Hwf _ Hin) as ((W1 & W2) & _).
-    pose proof (proj1 (Forall_forall _ _) Hb8 _ Hin) as W3. unfold pay in W1, W2, W3. cbn [fst] in W1, W2, W3.
-    destruct (s_frg x =? 0); [pose proof (blen_nonneg (s_data x)); lia|].
-    destruct (qlen (x :: q) <? u8 (s_frg x + 1)) eqn:E; lv_b2z.
-    - unfold u8 in E. rewrite Z.mod_small in E by lia. lia.
-    - pose proof (pg_msg_size_nonneg (x :: q)). lia. }
+  pose proof (pg_drained_room s Hr Hnw Hp Hb8) as Hroom.
   unfold pg_J. fold (r_idx s).
   destruct (Z_lt_ge_dec (a_idx s) (r_idx s)) as [Hlt|Hge]; [left; exact Hlt|right].
   split; [|exact Hroom].
@@ -1157,12 +1170,6 @@ Proof.
     apply (Hquiet (set_nodelay k nd iv rs nc)); auto.
 Qed.
 
-(* everything A has accepted so far: numbered or still queued *)
-Definition backlog_len (s : sys2) : nat := (length (numbered_of s) + length (snd_queue (kA s)))%nat.
-
-(* the one bound on sequence numbers, for everything accepted so far *)
-Definition no_wrap_all (s : sys2) : Prop := Z.of_nat (backlog_len s) < H32 - 65536.
-
 Lemma pg_no_wrap_all s : no_wrap_all s -> no_wrap (numbered_of s).
 Proof. unfold no_wrap_all, no_wrap, backlog_len. lia. Qed.
 
@@ -1231,9 +1238,1131 @@ Proof.
   exact (c02_round_progress s t s' Hr Ht Hdue Hb8 Hround (pg_no_wrap_all s' Hnw')).
 Qed.
 
+(* ================================================================== *)
+(* 8. zero-window probing: the window announcement reaches A           *)
+(* ================================================================== *)
+(* the receiver owes a window announcement / its delivery queue is full *)
+Definition pg_tell (k : kcp) : Prop := Z.land (probe k) c_IKCP_ASK_TELL <> 0.
+Definition pg_full (k : kcp) : Prop := rcv_wnd k <= qlen (rcv_queue k).
+
+Lemma pg_wnd_unused_pos k : inv k -> ~ pg_full k -> 0 < wnd_unused k.
+Proof.
+  intros Hinv Hn. unfold pg_full in Hn. unfold wnd_unused. pose proof (I_rcv_wnd _ Hinv). pose proof (qlen_nonneg (rcv_queue k)).
+  destruct (qlen (rcv_queue k) <? rcv_wnd k) eqn:E; lv_b2z; [|lia]. unfold u16. rewrite Z.mod_small; lia.
+Qed.
+
+Lemma pg_move_ready_grow rw : forall rb rq rn rb' rq' rn',
+  move_ready rb rq rn rw = (rb', rq', rn') -> qlen rq <= qlen rq'.
+Proof.
+  induction rb as [|s t IH]; intros rq rn rb' rq' rn' E; cbn [move_ready] in E.
+  - inversion E; subst. lia.
+  - destruct ((s_sn s =? rn) && (qlen rq <? rw)).
+    + apply IH in E. rewrite qlen_app, qlen_cons, qlen_nil in E. lia.
+    + inversion E; subst. lia.
+Qed.
+
+Lemma pg_do_move_ready_grow k :
+  qlen (rcv_queue k) <= qlen (rcv_queue (do_move_ready k)) /\ probe (do_move_ready k) = probe k /\
+  rcv_wnd (do_move_ready k) = rcv_wnd k.
+Proof.
+  pose proof (do_move_ready_fields k) as F. split; [|split; apply F].
+  unfold do_move_ready.
+  destruct (move_ready (rcv_buf k) (rcv_queue k) (rcv_nxt k) (rcv_wnd k)) as [[rb rq] rn] eqn:E.
+  ksimpl. exact (pg_move_ready_grow _ _ _ _ _ _ _ E).
+Qed.
+
+Lemma pg_parse_data_grow k s k' f : parse_data k s = Ok (k', f) ->
+  qlen (rcv_queue k) <= qlen (rcv_queue k') /\ probe k' = probe k /\ rcv_wnd k' = rcv_wnd k.
+Proof.
+  unfold parse_data. cbv zeta. intros H.
+  destruct ((itimediff (s_sn s) (u32 (rcv_nxt k + rcv_wnd k)) >=? 0) || (itimediff (s_sn s) (rcv_nxt k) <? 0)).
+  { inversion H; subst. split; [lia|split; reflexivity]. }
+  destruct (has_sn (s_sn s) (rcv_buf k)).
+  { inversion H; subst. apply pg_do_move_ready_grow. }
+  destruct (blen (s_data s) >? c_mtuLimit); [discriminate|]. inversion H; subst.
+  exact (pg_do_move_ready_grow (set_rcv_buf k (insert_seg s (rcv_buf k)))).
+Qed.
+
+(* one segment: a WASK sets the flag, nothing clears it, the queue does not shrink *)
+Lemma pg_seg_tell a x rest reg a' :
+  seg_wf x -> s_conv x = conv (i_k a) -> cmd_ok (s_cmd x) ->
+  input_seg a (encode_seg x ++ rest) reg = inl (Ok (a', rest)) ->
+  (pg_tell (i_k a) -> pg_tell (i_k a')) /\ (s_cmd x = c_IKCP_CMD_WASK -> pg_tell (i_k a')) /\
+  qlen (rcv_queue (i_k a)) <= qlen (rcv_queue (i_k a')) /\ rcv_wnd (i_k a') = rcv_wnd (i_k a).
+Proof.
+  intros Hwf Hcv Hcmd. rewrite (lv_input_seg_eq a x rest reg Hwf Hcv Hcmd), lv_in_tail_pre. cbv zeta.
+  pose proof (lv_fr_pre a x reg) as Hfr. set (k := i_k a) in *.
+  assert (Hp : probe (lv_pre a x reg) = probe k /\ rcv_queue (lv_pre a x reg) = rcv_queue k /\
+               rcv_wnd (lv_pre a x reg) = rcv_wnd k).
+  { unfold lv_fr in Hfr. destruct reg; inversion Hfr; repeat split; reflexivity. }
+  destruct Hp as (P1 & P2 & P3). set (kp := lv_pre a x reg) in *.
+  assert (Hsame : forall k', probe k' = probe kp -> rcv_queue k' = rcv_queue kp -> rcv_wnd k' = rcv_wnd kp ->
+            (pg_tell k -> pg_tell k') /\ qlen (rcv_queue k) <= qlen (rcv_queue k') /\ rcv_wnd k' = rcv_wnd k).
+  { intros k' E1 E2 E3. unfold pg_tell. rewrite E1, E2, E3, P1, P2, P3. split; [auto|split; [lia|reflexivity]]. }
+  destruct Hcmd as [E|[E|[E|E]]]; rewrite E.
+  - change (c_IKCP_CMD_PUSH =? c_IKCP_CMD_ACK) with false.
+    change (c_IKCP_CMD_PUSH =? c_IKCP_CMD_PUSH) with true. cbv iota.
+    assert (Hno : c_IKCP_CMD_PUSH = c_IKCP_CMD_WASK -> pg_tell (i_k a')) by (intros H; discriminate).
+    destruct (itimediff (s_sn x) (u32 (rcv_nxt kp + rcv_wnd kp)) <? 0).
+    + set (k4 := set_acklist kp (acklist kp ++ [(s_sn x, s_ts x)])).
+      destruct (itimediff (s_sn x) (rcv_nxt k4) >=? 0).
+      * destruct (parse_data k4 _) as [[k5 f]|w] eqn:Epd; [|discriminate].
+        intros H; inversion H; subst a'. cbn [i_k]. destruct (pg_parse_data_grow _ _ _ _ Epd) as (G1 & G2 & G3).
+        destruct (Hsame k4 eq_refl eq_refl eq_refl) as (S1 & S2 & S3).
+        split; [intros Ht; unfold pg_tell; rewrite G2; exact (S1 Ht)|]. split; [intros H0; discriminate|].
+        split; [lia|congruence].
+      * intros H; inversion H; subst a'. cbn [i_k].
+        destruct (Hsame k4 eq_refl eq_refl eq_refl) as (S1 & S2 & S3).
+        split; [exact S1|]. split; [intros H0; discriminate|]. split; assumption.
+    + intros H; inversion H; subst a'. cbn [i_k].
+      destruct (Hsame kp eq_refl eq_refl eq_refl) as (S1 & S2 & S3).
+      split; [exact S1|]. split; [intros H0; discriminate|]. split; assumption.
+  - change (c_IKCP_CMD_ACK =? c_IKCP_CMD_ACK) with true. cbv iota.
+    pose proof (lv_fr_parse_fastack (parse_ack kp (s_sn x)) (s_sn x) (s_ts x)) as F2.
+    destruct (parse_fastack (parse_ack kp (s_sn x)) (s_sn x) (s_ts x)) as [k2 f]. cbn [fst] in F2.
+    pose proof (lv_fr_shrink_buf k2) as F3. rewrite F2, lv_fr_parse_ack in F3.
+    intros H; inversion H; subst a'. cbn [i_k].
+    assert (F : probe (shrink_buf k2) = probe kp /\ rcv_queue (shrink_buf k2) = rcv_queue kp /\
+                rcv_wnd (shrink_buf k2) = rcv_wnd kp) by (unfold lv_fr in F3; inversion F3; repeat split; reflexivity).
+    destruct F as (F4 & F5 & F6). destruct (Hsame _ F4 F5 F6) as (S1 & S2 & S3).
+    split; [exact S1|]. split; [intros H0; discriminate|]. split; assumption.
+  - change (c_IKCP_CMD_WASK =? c_IKCP_CMD_ACK) with false.
+    change (c_IKCP_CMD_WASK =? c_IKCP_CMD_PUSH) with false.
+    change (c_IKCP_CMD_WASK =? c_IKCP_CMD_WASK) with true. cbv iota.
+    intros H; inversion H; subst a'. cbn [i_k].
+    assert (Ht : pg_tell (set_probe_flags kp (Z.lor (probe kp) c_IKCP_ASK_TELL))) by (unfold pg_tell; ksimpl; apply lv_land_lor_tell).
+    split; [intros _; exact Ht|]. split; [intros _; exact Ht|]. ksimpl. rewrite P2, P3. split; [lia|reflexivity].
+  - change (c_IKCP_CMD_WINS =? c_IKCP_CMD_ACK) with false.
+    change (c_IKCP_CMD_WINS =? c_IKCP_CMD_PUSH) with false.
+    change (c_IKCP_CMD_WINS =? c_IKCP_CMD_WASK) with false. cbv iota.
+    intros H; inversion H; subst a'. cbn [i_k].
+    destruct (Hsame kp eq_refl eq_refl eq_refl) as (S1 & S2 & S3).
+    split; [exact S1|]. split; [intros H0; discriminate|]. split; assumption.
+Qed.
+
+(* the flag and the queue across a whole Input of B *)
+Lemma pg_b_input_tell isn src g k segs reg nd now k' r o :
+  no_wrap src -> pg_bi isn src g k -> Forall (pg_segB isn src (conv k)) segs ->
+  input k (concat (map encode_seg segs)) reg nd now = Ok (k', r, o) ->
+  (pg_full k -> pg_full k') /\
+  (o = [] -> (pg_tell k \/ exists x, In x segs /\ s_cmd x = c_IKCP_CMD_WASK) -> pg_tell k').
+Proof.
+  intros Hnw Hbi HQ Hin.
+  destruct segs as [|s1 t1].
+  { cbn [map concat] in Hin. unfold input in Hin. rewrite pg_input_pre_nil in Hin. inversion Hin; subst k' r o.
+    split; [auto|]. intros _ [H|(x & [] & _)]. exact H. }
+  set (segs := s1 :: t1) in *.
+  set (I := fun (pre : list seg) (a : inp) =>
+    pg_bi isn src g (i_k a) /\ conv (i_k a) = conv k /\ rcv_wnd (i_k a) = rcv_wnd k /\
+    qlen (rcv_queue k) <= qlen (rcv_queue (i_k a)) /\
+    ((pg_tell k \/ exists x, In x pre /\ s_cmd x = c_IKCP_CMD_WASK) -> pg_tell (i_k a))).
+  destruct (pg_input_pre I (pg_segB isn src (conv k)) reg k segs nd now) as (a' & HI & Epre).
+  { intros s (H & _). exact H. }
+  { intros pre a s rest (I1 & I2 & I3 & I4 & I5) (Q1 & Q2 & Q3 & Q4) Hrest.
+    destruct (pg_b_seg isn src g a s rest reg Hnw I1 Hrest Q1) as (a1 & E1 & B1 & B2 & _);
+      [congruence|exact Q3|exact Q4|].
+    destruct (pg_seg_tell a s rest reg a1 Q1 ltac:(congruence) Q3 E1) as (T1 & T2 & T3 & T4).
+    exists a1. split; [exact E1|]. split; [exact B1|].
+    split; [destruct B2 as (_ & _ & _ & _ & H); congruence|]. split; [congruence|]. split; [lia|].
+    intros [H|(x & Hx & Hc)]; [apply T1, I5; left; exact H|].
+    apply in_app_or in Hx. destruct Hx as [Hx|[Hx|[]]].
+    - apply T1, I5. right. exists x. split; assumption.
+    - subst x. exact (T2 Hc). }
+  { exact HQ. }
+  { discriminate. }
+  { split; [exact Hbi|]. split; [reflexivity|]. split; [reflexivity|]. split; [cbn [i_k]; lia|].
+    intros [H|(x & [] & _)]. exact H. }
+  destruct HI as (I1 & I2 & I3 & I4 & I5).
+  set (k3 := pg_post k a' reg now) in *.
+  destruct (pg_fx_all _ _ (pg_fx_post k a' reg now)) as
+    (X1 & X2 & X3 & X4 & X5 & X6 & X7 & X8 & X9 & X10 & X11 & X12 & X13 & X14 & X15 & X16 & X17 & X18).
+  fold k3 in X1, X2, X3, X4, X5, X6, X7, X8, X9, X10, X11, X12, X13, X14, X15, X16, X17, X18.
+  assert (Hinv3 : inv k3).
+  { assert (Hbl : is_byte_list (concat (map encode_seg segs))).
+    { apply pg_concat_bytes. eapply Forall_impl; [|exact HQ]. intros s (H & _). exact H. }
+    destruct (input_pre_ok k _ reg nd now (BI_inv _ _ _ _ Hbi) Hbl) as (k2 & r2 & fr2 & E2 & Hi2 & _).
+    rewrite Epre in E2. inversion E2; subst. exact Hi2. }
+  assert (Hbi3 : pg_bi isn src g k3).
+  { apply (pg_bi_frame isn src g (i_k a')); try assumption. unfold pg_rv. rewrite X5, X13, X15, X7. reflexivity. }
+  assert (Hfull3 : pg_full k -> pg_full k3) by (unfold pg_full; rewrite X7, X13, I3; lia).
+  unfold input in Hin. rewrite Epre in Hin.
+  assert (Hfl : forall ft k4 nx o4, ft = FLUSH_FULL \/ ft = FLUSH_ACKONLY -> flush k3 ft now = Ok (k4, nx, o4) ->
+             pg_full k -> pg_full k4).
+  { intros ft k4 nx o4 Hft Ef Hf.
+    destruct (pg_b_flush isn src g k3 ft now k4 nx o4 Hbi3 Hft Ef) as (_ & F2 & _).
+    unfold pg_rv in F2. inversion F2 as [[E1 E2 E3 E4]]. unfold pg_full. rewrite E2, E4. exact (Hfull3 Hf). }
+  destruct (pg_freq k3 a' nd).
+  - inversion Hin; subst k' r o. split; [exact Hfull3|]. intros _ H. unfold pg_tell. rewrite X9. exact (I5 H).
+  - destruct (flush k3 FLUSH_ACKONLY now) as [[[k4 nx] o4]|w] eqn:Ef; [|discriminate].
+    inversion Hin; subst k' r o. split; [exact (Hfl _ _ _ _ (or_intror eq_refl) Ef)|].
+    intros Eo H. exfalso. subst o4.
+    assert (Ht3 : Z.land (probe k3) c_IKCP_ASK_TELL <> 0) by (rewrite X9; exact (I5 H)).
+    destruct (tell_emits_wins k3 _ now k4 nx [] Hinv3 Ht3 Ef) as ((d & _ & _ & [] & _) & _).
+  - destruct (flush k3 FLUSH_FULL now) as [[[k4 nx] o4]|w] eqn:Ef; [|discriminate].
+    inversion Hin; subst k' r o. split; [exact (Hfl _ _ _ _ (or_introl eq_refl) Ef)|].
+    intros Eo H. exfalso. subst o4.
+    assert (Ht3 : Z.land (probe k3) c_IKCP_ASK_TELL <> 0) by (rewrite X9; exact (I5 H)).
+    destruct (tell_emits_wins k3 _ now k4 nx [] Hinv3 Ht3 Ef) as ((d & _ & _ & [] & _) & _).
+Qed.
+
+(* Recv: the flag is kept, and re-opening a full queue sets it *)
+Lemma pg_recv_tell k n k' r d : inv k -> recv k n = (k', r, d) ->
+  (pg_tell k -> pg_tell k') /\ (pg_full k -> pg_full k' \/ pg_tell k').
+Proof.
+  intros Hinv H. unfold recv in H. cbv zeta in H.
+  destruct (peeksize k <? 0); [inversion H; subst; split; auto|].
+  destruct (peeksize k >? n); [inversion H; subst; split; auto|].
+  destruct (pop_msg (rcv_queue k)) as [d0 rq].
+  set (k1 := do_move_ready (set_rcv_queue k rq)) in *.
+  destruct (pg_do_move_ready_grow (set_rcv_queue k rq)) as (_ & G2 & G3). fold k1 in G2, G3.
+  destruct (qlen (rcv_queue k1) <? rcv_wnd k1) eqn:E1; lv_b2z; cbn [andb] in H.
+  - destruct (qlen (rcv_queue k) >=? rcv_wnd k) eqn:E2; lv_b2z; inversion H; subst k' r d.
+    + assert (Ht : pg_tell (set_probe_flags k1 (Z.lor (probe k1) c_IKCP_ASK_TELL))) by (unfold pg_tell; ksimpl; apply lv_land_lor_tell).
+      split; [intros _; exact Ht|intros _; right; exact Ht].
+    + split; [unfold pg_tell; rewrite G2; auto|]. intros Hf. unfold pg_full in Hf. lia.
+  - inversion H; subst k' r d. split; [unfold pg_tell; rewrite G2; auto|].
+    intros _. left. unfold pg_full. lia.
+Qed.
+
+(* A: after Input of a datagram of control segments, rmt_wnd is the window of its last segment *)
+Definition pg_ctlseg (cv : Z) (x : seg) : Prop :=
+  seg_wf x /\ s_conv x = cv /\
+  (s_cmd x = c_IKCP_CMD_ACK \/ s_cmd x = c_IKCP_CMD_WASK \/ s_cmd x = c_IKCP_CMD_WINS).
+
+Lemma pg_a_input_wnd k x t nd now k' r o :
+  inv k -> Forall (pg_ctlseg (conv k)) (x :: t) ->
+  input k (concat (map encode_seg (x :: t))) true nd now = Ok (k', r, o) ->
+  rmt_wnd k' = s_wnd (last (x :: t) x).
+Proof.
+  intros Hinv HQ Hin.
+  set (I := fun (pre : list seg) (a : inp) =>
+    inv (i_k a) /\ conv (i_k a) = conv k /\ (pre <> [] -> rmt_wnd (i_k a) = s_wnd (last pre x))).
+  destruct (pg_input_pre I (pg_ctlseg (conv k)) true k (x :: t) nd now) as (a' & HI & Epre).
+  { intros s (H & _). exact H. }
+  { intros pre a s rest (I1 & I2 & I3) (Q1 & Q2 & Q3) Hrest.
+    assert (Hcok : cmd_ok (s_cmd s)) by (unfold cmd_ok; tauto).
+    destruct (window_update a s rest Q1 Hcok ltac:(congruence) I1) as (a1 & E1 & W1).
+    { intros Hc. unfold c_IKCP_CMD_ACK, c_IKCP_CMD_WASK, c_IKCP_CMD_WINS, c_IKCP_CMD_PUSH in *. lia. }
+    assert (Hbytes : is_byte_list (encode_seg s ++ rest)).
+    { apply ns_is_byte_list_app. split; [apply nr_encode_bytes; exact Q1|exact Hrest]. }
+    assert (Hblen : c_IKCP_OVERHEAD <= blen (encode_seg s ++ rest)).
+    { rewrite blen_app, lv_encode_len. pose proof (blen_nonneg (s_data s)). pose proof (blen_nonneg rest). lia. }
+    pose proof (ii_input_seg_ok a _ true I1 Hbytes Hblen) as Hii. rewrite E1 in Hii.
+    destruct Hii as (Hinv1 & (_ & _ & Hc1 & _) & _).
+    exists a1. split; [exact E1|]. split; [exact Hinv1|]. split; [congruence|].
+    intros _. rewrite last_last. exact W1. }
+  { exact HQ. }
+  { discriminate. }
+  { split; [exact Hinv|]. split; [reflexivity|]. intros H; contradiction. }
+  destruct HI as (I1 & I2 & I3). specialize (I3 ltac:(discriminate)).
+  set (k3 := pg_post k a' true now) in *.
+  destruct (pg_fx_all _ _ (pg_fx_post k a' true now)) as
+    (X1 & X2 & X3 & X4 & X5 & X6 & X7 & X8 & _).
+  fold k3 in X8.
+  unfold input in Hin. rewrite Epre in Hin.
+  assert (Hfl : forall ft k4 nx o4, flush k3 ft now = Ok (k4, nx, o4) -> rmt_wnd k4 = rmt_wnd k3).
+  { intros ft k4 nx o4 Ef.
+    destruct (fl_shape k3 ft now k4 nx o4 Ef)
+      as (al & tsp & pw & st & sst & cwn & inc & h1 & st3 & sq & sb & nxt & ns & k5 & sb' & a & Hk' & _).
+    subst k4. reflexivity. }
+  destruct (pg_freq k3 a' nd).
+  - inversion Hin; subst k' r o. congruence.
+  - destruct (flush k3 FLUSH_ACKONLY now) as [[[k4 nx] o4]|w] eqn:Ef; [|discriminate].
+    inversion Hin; subst k' r o. rewrite (Hfl _ _ _ _ Ef). congruence.
+  - destruct (flush k3 FLUSH_FULL now) as [[[k4 nx] o4]|w] eqn:Ef; [|discriminate].
+    inversion Hin; subst k' r o. rewrite (Hfl _ _ _ _ Ef). congruence.
+Qed.
+
+(* the last datagram of a piece of the B -> A history announces an open window *)
+Definition pg_wlast (s : sys2) (E : list bytes) : Prop :=
+  exists pre d x t, E = pre ++ [d] /\ d = concat (map encode_seg (x :: t)) /\
+    Forall (ack_seg s) (x :: t) /\ Forall (fun y => 0 < s_wnd y) (x :: t).
+
+(* B owes a window announcement, or its queue is full (reading will make it owe one), or the
+   last thing it said since position n0 of its history announced an open window *)
+Definition pg_omega (n0 : nat) (s : sys2) : Prop :=
+  pg_tell (kB s) \/ pg_full (kB s) \/ pg_wlast s (skipn n0 (wireB s)).
+
+Lemma pg_wlast_b_mono s s' E :
+  pg_frameA s s' -> pg_bmono (isn_of s) (kB s) (kB s') -> pg_wlast s E -> pg_wlast s' E.
+Proof.
+  intros HfA Hm (pre & d & x & t & E1 & E2 & H1 & H2). exists pre, d, x, t.
+  split; [exact E1|]. split; [exact E2|]. split; [|exact H2].
+  eapply Forall_impl; [|exact H1]. intros y. apply pg_ack_seg_b_mono; assumption.
+Qed.
+
+(* what a B step that emitted something leaves behind *)
+Lemma pg_omega_out s o s' n0 :
+  pg_reach s -> link_inv s -> ev_ok2 s (EB o) -> sys2_step s (EB o) = Some s' ->
+  (n0 <= length (wireB s))%nat ->
+  exists out, wireB s' = wireB s ++ out /\
+    (out <> [] -> pg_full (kB s') \/ pg_wlast s' (skipn n0 (wireB s'))) /\
+    (out = [] -> pg_wlast s (skipn n0 (wireB s)) -> pg_wlast s' (skipn n0 (wireB s'))).
+Proof.
+  intros Hr Hl Hok Hst Hn0.
+  destruct (pg_link_b s o s' Hr Hl Hok Hst) as (Hl' & HfA & Hm & out & Hw & Hout & _).
+  destruct (pg_frameA_isn s s' HfA) as (G1 & _).
+  assert (Hr' : pg_reach s') by (eapply pr_step; eassumption).
+  destruct (pg_reach_base s Hr) as (_ & HiB & _). destruct (pg_reach_base s' Hr') as (_ & HiB' & _).
+  destruct (pg_stepB _ _ _ Hst) as (k' & x & E & Es').
+  assert (F : kB s' = k' /\ wireB s' = wireB s ++ o_dgrams x) by (subst s'; split; reflexivity).
+  destruct F as (F4 & F6).
+  assert (Eout : out = o_dgrams x) by (rewrite F6 in Hw; exact (eq_sym (app_inv_head _ _ _ Hw))).
+  pose proof (step_output_size (kB s) o k' x HiB (proj1 (proj1 (proj1 Hok))) E) as Hsize. rewrite <- Eout in Hsize.
+  exists out. split; [exact Hw|]. split.
+  - intros Hne. destruct (Z_le_gt_dec (rcv_wnd (kB s')) (qlen (rcv_queue (kB s')))) as [Hf|Hnf]; [left; exact Hf|right].
+    destruct (exists_last Hne) as (pre & d & Ep).
+    assert (Hd : In d out) by (rewrite Ep; apply in_or_app; right; left; reflexivity).
+    destruct (proj1 (Forall_forall _ _) Hout d Hd) as (segs & Ed & Hsegs).
+    pose proof (proj1 (Forall_forall _ _) Hsize d Hd) as Hb.
+    destruct segs as [|y t]; [rewrite Ed in Hb; cbn in Hb; lia|].
+    assert (Hpos : 0 < wnd_unused (kB s')) by (apply pg_wnd_unused_pos; [exact HiB'|unfold pg_full; lia]).
+    exists (skipn n0 (wireB s) ++ pre), d, y, t. split.
+    { rewrite Hw, Ep, pg_skipn_app_le by exact Hn0. rewrite app_assoc. reflexivity. }
+    split; [exact Ed|]. split.
+    + eapply Forall_impl; [|exact Hsegs]. intros z Hz. apply pg_ack_of_bseg; [exact (LB_conv _ Hl')|]. rewrite G1. exact Hz.
+    + eapply Forall_impl; [|exact Hsegs]. intros z (_ & _ & _ & _ & _ & Wz). rewrite Wz. exact Hpos.
+  - intros -> Hwl. rewrite Hw, app_nil_r. exact (pg_wlast_b_mono s s' _ HfA Hm Hwl).
+Qed.
+
+(* ---- Input ---- *)
+Lemma pg_omega_input s d rg nd t s' n0 segs :
+  pg_reach s -> link_inv s -> ev_ok2 s (EB (OInput d rg nd t)) ->
+  sys2_step s (EB (OInput d rg nd t)) = Some s' -> (n0 <= length (wireB s))%nat ->
+  d = concat (map encode_seg segs) -> Forall (data_seg s) segs ->
+  (pg_omega n0 s \/ exists x, In x segs /\ s_cmd x = c_IKCP_CMD_WASK) -> pg_omega n0 s'.
+Proof.
+  intros Hr Hl Hok Hst Hn0 Ed Hsegs Hpre.
+  destruct (pg_omega_out s _ s' n0 Hr Hl Hok Hst Hn0) as (out & Hw & Hne & Hnil).
+  destruct (pg_stepB _ _ _ Hst) as (k' & x & E & Es').
+  cbn [step] in E. destruct (input (kB s) d rg nd t) as [[[k1 r] o]|e] eqn:Ein; [|discriminate].
+  injection E as Ek Ex.
+  assert (F : kB s' = k1 /\ wireB s' = wireB s ++ o) by (rewrite Es', <- Ek, <- Ex; split; reflexivity).
+  destruct F as (F4 & F6).
+  assert (Eout : out = o) by (rewrite F6 in Hw; exact (eq_sym (app_inv_head _ _ _ Hw))).
+  rewrite Ed in Ein.
+  destruct (pg_b_input_tell (isn_of s) (numbered_of s) (gB (s1 s)) (kB s) segs rg nd t k1 r o) as (T1 & T2);
+    [exact (L_nowrap _ Hl)|exact (pg_bi_of_link s Hr Hl)|rewrite (LB_conv _ Hl); exact Hsegs|exact Ein|].
+  rewrite <- F4 in T1, T2. unfold pg_omega.
+  destruct o as [|d0 o0].
+  - subst out. specialize (T2 eq_refl).
+    destruct Hpre as [[Ht|[Hf|Hwl]]|Hwask].
+    + left. apply T2. left; exact Ht.
+    + right; left. exact (T1 Hf).
+    + right; right. exact (Hnil eq_refl Hwl).
+    + left. apply T2. right; exact Hwask.
+  - right. apply Hne. rewrite Eout. discriminate.
+Qed.
+
+(* ---- Recv ---- *)
+Lemma pg_omega_recv s n s' n0 :
+  pg_reach s -> link_inv s -> sys2_step s (EB (ORecv n)) = Some s' -> (n0 <= length (wireB s))%nat ->
+  pg_omega n0 s -> pg_omega n0 s'.
+Proof.
+  intros Hr Hl Hst Hn0 Hom. pose proof (pg_recv_ev_ok s n) as Hok.
+  destruct (pg_omega_out s _ s' n0 Hr Hl Hok Hst Hn0) as (out & Hw & _ & Hnil).
+  destruct (pg_reach_base s Hr) as (_ & HiB & _).
+  destruct (pg_stepB _ _ _ Hst) as (k' & x & E & Es').
+  cbn [step] in E. destruct (recv (kB s) n) as [[k1 r] d] eqn:Er. injection E as Ek Ex.
+  assert (F : kB s' = k1 /\ wireB s' = wireB s ++ []) by (rewrite Es', <- Ek, <- Ex; split; reflexivity).
+  destruct F as (F4 & F6).
+  assert (Eout : out = []) by (rewrite F6 in Hw; exact (eq_sym (app_inv_head _ _ _ Hw))).
+  destruct (pg_recv_tell (kB s) n k1 r d HiB Er) as (T1 & T2). rewrite <- F4 in T1, T2.
+  unfold pg_omega. destruct Hom as [Ht|[Hf|Hwl]].
+  - left. exact (T1 Ht).
+  - destruct (T2 Hf) as [H|H]; [right; left; exact H|left; exact H].
+  - right; right. exact (Hnil Eout Hwl).
+Qed.
+
+(* ---- the flush after the drain ---- *)
+Lemma pg_omega_flush s t s' n0 :
+  pg_reach s -> link_inv s -> is_u32 t -> sys2_step s (EB (OFlush true t)) = Some s' ->
+  (n0 <= length (wireB s))%nat -> pg_omega n0 s -> ~ pg_full (kB s) ->
+  pg_wlast s' (skipn n0 (wireB s')).
+Proof.
+  intros Hr Hl Ht Hst Hn0 Hom Hnf. pose proof (pg_flushB_ev_ok s t Ht) as Hok.
+  destruct (pg_omega_out s _ s' n0 Hr Hl Hok Hst Hn0) as (out & Hw & Hne & Hnil).
+  destruct (pg_reach_base s Hr) as (_ & HiB & _).
+  destruct (pg_stepB _ _ _ Hst) as (k' & x & E & Es').
+  cbn [step] in E. destruct (flush (kB s) FLUSH_FULL t) as [[[k1 nx] o]|e] eqn:Hfl; [|discriminate].
+  injection E as Ek Ex.
+  assert (F : kB s' = k1 /\ wireB s' = wireB s ++ o) by (rewrite Es', <- Ek, <- Ex; split; reflexivity).
+  destruct F as (F4 & F6).
+  assert (Eout : out = o) by (rewrite F6 in Hw; exact (eq_sym (app_inv_head _ _ _ Hw))).
+  pose proof (nr_flush_frame _ _ _ _ _ _ Hfl) as Hfr. unfold nr_rcv in Hfr. inversion Hfr as [[R1 R2 R3]].
+  destruct (fl_shape _ _ _ _ _ _ Hfl) as (al & tsp & pw & st & sst & cwn & inc & h1 & st3 & sq & sb & nxt & ns & k5 & sb' & a & Hk' & _).
+  assert (Rw : rcv_wnd (kB s') = rcv_wnd (kB s)) by (rewrite F4, Hk'; reflexivity).
+  assert (Hnf' : ~ pg_full (kB s')) by (unfold pg_full in *; rewrite Rw, F4, R2; exact Hnf).
+  destruct o as [|d0 o0].
+  - destruct Hom as [Htl|[Hf|Hwl]]; [exfalso|contradiction|exact (Hnil Eout Hwl)].
+    destruct (tell_emits_wins (kB s) _ t k1 nx [] HiB Htl Hfl) as ((d & _ & _ & [] & _) & _).
+  - destruct (Hne ltac:(rewrite Eout; discriminate)) as [H|H]; [contradiction|exact H].
+Qed.
+
+(* ---- the drain and the delivery keep it ---- *)
+Lemma pg_drain_omega n n0 : forall s s',
+  drain n s = Some s' -> pg_reach s -> no_wrap (numbered_of s) -> (n0 <= length (wireB s))%nat ->
+  pg_omega n0 s -> pg_omega n0 s'.
+Proof.
+  induction n as [|n IH]; intros s s' Hd Hr Hnw Hn0 Hom; cbn [drain] in Hd.
+  - inversion Hd; subst; exact Hom.
+  - destruct (peeksize (kB s) <? 0); [inversion Hd; subst; exact Hom|].
+    destruct (sys2_step s (EB (ORecv (peeksize (kB s))))) as [sa|] eqn:Hst; [|discriminate]. cbn [bind2] in Hd.
+    pose proof (pg_recv_ev_ok s (peeksize (kB s))) as Hok.
+    pose proof (pg_link_reach s Hr Hnw) as Hl.
+    assert (Hra : pg_reach sa) by (eapply pr_step; eassumption).
+    destruct (pg_link_b s _ sa Hr Hl Hok Hst) as (_ & HfA & _ & out & Hw & _).
+    destruct (pg_frameA_isn s sa HfA) as (_ & G2 & _).
+    apply (IH sa s' Hd Hra); [rewrite G2; exact Hnw|rewrite Hw, app_length; lia|].
+    exact (pg_omega_recv s _ sa n0 Hr Hl Hst Hn0 Hom).
+Qed.
+
+Lemma pg_deliver_b_omega t n0 : forall ds s s',
+  deliver (fun d => EB (OInput d true false t)) ds s = Some s' ->
+  pg_reach s -> no_wrap (numbered_of s) -> is_u32 t ->
+  (forall d, In d ds -> In d (wire (s1 s))) -> (n0 <= length (wireB s))%nat ->
+  (pg_omega n0 s -> pg_omega n0 s') /\
+  (forall d segs w, In d ds -> d = concat (map encode_seg segs) -> Forall (data_seg s) segs -> In w segs ->
+     s_cmd w = c_IKCP_CMD_WASK -> pg_omega n0 s').
+Proof.
+  induction ds as [|d0 ds IH]; intros s s' Hd Hr Hnw Ht Hin Hn0; cbn [deliver] in Hd.
+  - inversion Hd; subst s'. split; [auto|]. intros d segs w [].
+  - destruct (sys2_step s (EB (OInput d0 true false t))) as [sa|] eqn:Hst; [|discriminate]. cbn [bind2] in Hd.
+    assert (Hok : ev_ok2 s (EB (OInput d0 true false t))) by (apply pg_inputB_ev_ok; [exact Hr|exact Ht|apply Hin; left; reflexivity]).
+    pose proof (pg_link_reach s Hr Hnw) as Hl.
+    assert (Hra : pg_reach sa) by (eapply pr_step; eassumption).
+    destruct (pg_link_b s _ sa Hr Hl Hok Hst) as (_ & HfA & _ & out & Hw & _).
+    destruct (pg_frameA_isn s sa HfA) as (G1 & G2 & _).
+    destruct (IH sa s' Hd Hra) as (R1 & R2);
+      [rewrite G2; exact Hnw|exact Ht| |rewrite Hw, app_length; lia|].
+    { intros d Hdin. destruct HfA as (_ & _ & A3). rewrite A3. apply Hin. right; exact Hdin. }
+    destruct (proj1 (Forall_forall _ _) (L0_data _ Hl) d0 (Hin d0 (or_introl eq_refl))) as (segs0 & Ed0 & Hsegs0).
+    split.
+    { intros Hom. apply R1. apply (pg_omega_input s d0 true false t sa n0 segs0 Hr Hl Hok Hst Hn0 Ed0 Hsegs0). left; exact Hom. }
+    intros d segs w Hdin Ed Hsegs Hw0 Hcmd. destruct Hdin as [Hdin|Hdin].
+    + subst d. apply R1. apply (pg_omega_input s d0 true false t sa n0 segs Hr Hl Hok Hst Hn0 Ed Hsegs).
+      right. exists w. split; assumption.
+    + apply (R2 d segs w Hdin Ed); try assumption.
+      eapply Forall_impl; [|exact Hsegs]. intros y. unfold data_seg. destruct HfA as (A1 & _).
+      rewrite G1, G2, A1. tauto.
+Qed.
+
+(* ---- A: the last datagram decides rmt_wnd ---- *)
+Lemma pg_deliver_a_wnd t : forall ds s s',
+  deliver (fun d => EA (OInput d true false t)) ds s = Some s' ->
+  pg_reach s -> is_u32 t -> (forall d, In d ds -> In d (wireB s)) -> pg_wlast s ds ->
+  0 < rmt_wnd (kA s').
+Proof.
+  induction ds as [|d0 ds IH]; intros s s' Hd Hr Ht Hin Hwl; cbn [deliver] in Hd.
+  - destruct Hwl as (pre & d & x & t0 & E & _). destruct pre; discriminate.
+  - destruct (sys2_step s (EA (OInput d0 true false t))) as [sa|] eqn:Hst; [|discriminate]. cbn [bind2] in Hd.
+    assert (Hok : ev_ok2 s (EA (OInput d0 true false t))) by (apply pg_inputA_ev_ok; [exact Hr|exact Ht|apply Hin; left; reflexivity]).
+    assert (Hra : pg_reach sa) by (eapply pr_step; eassumption).
+    destruct (pg_reach_base s Hr) as (HiA & _ & Hsi & _).
+    destruct (pg_stepA _ _ _ Hst) as (k' & x & E & Es').
+    assert (F : kB sa = kB s /\ gB (s1 sa) = gB (s1 s) /\ wireB sa = wireB s /\ kA sa = k') by (subst sa; repeat split; reflexivity).
+    destruct F as (F1 & F2 & F3 & F4).
+    destruct (pg_step_numbered s _ sa Hr Hok Hst) as (Hisn & _).
+    assert (Hcv : conv (kA sa) = conv (kA s)).
+    { rewrite F4. exact (pg_step_conv _ _ _ _ _ Hsi (proj1 Hok) E). }
+    assert (HfB : pg_frameB s sa) by (repeat split; assumption).
+    destruct Hwl as (pre & d & y & t0 & Eds & Ed & Hack & Hpos).
+    destruct ds as [|d1 ds'].
+    + (* d0 is the last datagram *)
+      destruct pre as [|p pre']; [|destruct pre'; discriminate]. cbn [app] in Eds. inversion Eds; subst d0.
+      cbn [deliver] in Hd. inversion Hd; subst s'. rewrite F4.
+      cbn [step] in E. destruct (input (kA s) d true false t) as [[[k1 r] o]|e] eqn:Ein; [|discriminate].
+      injection E as Ek Ex. rewrite <- Ek. rewrite Ed in Ein.
+      assert (Hctl : Forall (pg_ctlseg (conv (kA s))) (y :: t0)).
+      { eapply Forall_impl; [|exact Hack]. intros z (A & B & C & _). split; [exact A|]. split; [exact B|exact C]. }
+      rewrite (pg_a_input_wnd (kA s) y t0 false t k1 r o HiA Hctl Ein).
+      assert (Hl : In (last (y :: t0) y) (y :: t0)).
+      { clear. generalize y at 1 3. induction t0 as [|z u IHu]; intros y0; [left; reflexivity|].
+        change (last (y0 :: z :: u) y) with (last (z :: u) y). right. apply IHu. }
+      exact (proj1 (Forall_forall _ _) Hpos _ Hl).
+    + apply (IH sa s' Hd Hra Ht).
+      * intros d' Hd'. rewrite F3. apply Hin. right; exact Hd'.
+      * destruct pre as [|p pre']; [destruct ds'; discriminate|]. cbn [app] in Eds. inversion Eds; subst p.
+        exists pre', d, y, t0. split; [assumption|]. split; [exact Ed|]. split; [|exact Hpos].
+        eapply Forall_impl; [|exact Hack]. intros z. apply pg_ack_seg_frameB. exact HfB.
+Qed.
+
+(* ---- A's flushes while the window is closed ---- *)
+Lemma pg_flush_zero_wnd k ft now k' nx o :
+  inv k -> rmt_wnd k = 0 -> flush k ft now = Ok (k', nx, o) ->
+  rmt_wnd k' = 0 /\ newly_numbered k k' = [].
+Proof.
+  intros Hinv H0 Hfl.
+  destruct (sender_standstill k ft now k' nx o Hinv H0 Hfl) as (_ & _ & Hq).
+  destruct (fl_shape k ft now k' nx o Hfl)
+    as (al & tsp & pw & st & sst & cwn & inc & h1 & st3 & sq & sb & nxt & ns & k5 & sb' & a & Hk' & _).
+  assert (Hu : snd_una k' = snd_una k) by (subst k'; reflexivity).
+  split; [subst k'; exact H0|].
+  rewrite (ns_newly_same k k' Hinv Hu), skipn_all2; [reflexivity|]. unfold qlen in Hq. lia.
+Qed.
+
+Lemma pg_probe_armed k ft now k' nx o :
+  rmt_wnd k = 0 -> probe_inv k -> flush k ft now = Ok (k', nx, o) ->
+  probe_wait k' <> 0 /\ probe_inv k'.
+Proof.
+  intros H0 Hp Hfl. split; [|exact (lv_pi_flush k ft now k' nx o Hfl Hp)].
+  destruct (lv_flush_spec _ _ _ _ _ _ Hfl)
+    as (h1 & sq & sb & nxt & ns & sb' & _ & _ & _ & _ & _ & _ & _ & _ & Fpw & _).
+  rewrite Fpw. unfold lv_ph2. rewrite H0. change (0 =? 0) with true. cbv iota.
+  destruct (probe_wait k =? 0) eqn:E0; lv_b2z; [ksimpl; unfold c_IKCP_PROBE_INIT; lia|].
+  destruct (itimediff now (ts_probe k) >=? 0); [|exact E0].
+  cbv zeta. ksimpl. unfold c_IKCP_PROBE_INIT, c_IKCP_PROBE_LIMIT.
+  destruct Hp as [Hp|Hp]; [contradiction|].
+  destruct (probe_wait k <? 500) eqn:E1; lv_b2z; [lia|].
+  assert (Hu : u32 (probe_wait k + probe_wait k / 2) = probe_wait k + probe_wait k / 2) by (apply u32_id; unfold W32; lia).
+  rewrite Hu. destruct (probe_wait k + probe_wait k / 2 >? 120000); lia.
+Qed.
+
+Lemma pg_flushA_zero s t s' :
+  pg_reach s -> is_u32 t -> rmt_wnd (kA s) = 0 -> probe_inv (kA s) ->
+  sys2_step s (EA (OFlush true t)) = Some s' ->
+  pg_reach s' /\ pg_frameB s s' /\ numbered_of s' = numbered_of s /\ rmt_wnd (kA s') = 0 /\
+  probe_wait (kA s') <> 0 /\ probe_inv (kA s') /\ exists o, wire (s1 s') = wire (s1 s) ++ o.
+Proof.
+  intros Hr Ht H0 Hp Hst. pose proof (pg_flushA_ev_ok s t Ht) as Hok.
+  assert (Hr' : pg_reach s') by (eapply pr_step; eassumption).
+  destruct (pg_reach_base s Hr) as (HiA & _ & Hsi & _).
+  destruct (pg_stepA _ _ _ Hst) as (k' & x & E & Es').
+  pose proof (pg_step_conv _ _ _ _ _ Hsi (proj1 Hok) E) as Hcv.
+  cbn [step] in E. destruct (flush (kA s) FLUSH_FULL t) as [[[k1 nx] o]|e] eqn:Hfl; [|discriminate].
+  injection E as Ek Ex.
+  destruct (pg_flush_zero_wnd (kA s) _ t k1 nx o HiA H0 Hfl) as (Z1 & Z2).
+  destruct (pg_probe_armed (kA s) _ t k1 nx o H0 Hp Hfl) as (Z3 & Z4).
+  rewrite <- Ek in Es', Hcv.
+  assert (F : kA s' = k1 /\ kB s' = kB s /\ gB (s1 s') = gB (s1 s) /\ wireB s' = wireB s /\
+              isn_of s' = isn_of s /\ numbered_of s' = numbered_of s ++ newly_numbered (kA s) k1 /\
+              wire (s1 s') = wire (s1 s) ++ o_dgrams x) by (rewrite Es'; repeat split; reflexivity).
+  destruct F as (F1 & F2 & F3 & F4 & F5 & F6 & F7).
+  split; [exact Hr'|]. split; [repeat split; try assumption; rewrite F1; exact Hcv|].
+  split; [rewrite F6, Z2, app_nil_r; reflexivity|]. rewrite F1.
+  split; [exact Z1|]. split; [exact Z3|]. split; [exact Z4|]. exists (o_dgrams x). exact F7.
+Qed.
+
+(* the due probe puts a WASK on the wire *)
+Lemma pg_flush_wask s t s' :
+  pg_reach s -> is_u32 t -> no_wrap (numbered_of s') -> rmt_wnd (kA s) = 0 -> probe_wait (kA s) <> 0 ->
+  itimediff t (ts_probe (kA s)) >= 0 -> sys2_step s (EA (OFlush true t)) = Some s' ->
+  exists d segs w, In d (new_wire s s') /\ d = concat (map encode_seg segs) /\ Forall (data_seg s') segs /\
+    In w segs /\ s_cmd w = c_IKCP_CMD_WASK.
+Proof.
+  intros Hr Ht Hnw' H0 Hpw Hdue Hst.
+  pose proof (pg_flushA_ev_ok s t Ht) as Hok.
+  assert (Hr' : pg_reach s') by (eapply pr_step; eassumption).
+  pose proof (pg_link_reach s' Hr' Hnw') as Hl'.
+  destruct (pg_reach_base s Hr) as (HiA & _). destruct (pg_reach_base s' Hr') as (HiA' & _).
+  destruct (pg_stepA _ _ _ Hst) as (k' & x & E & Es').
+  pose proof (step_output_size (kA s) (OFlush true t) k' x HiA I E) as Hsize.
+  cbn [step] in E. destruct (flush (kA s) FLUSH_FULL t) as [[[k1 nx] o]|e] eqn:Hfl; [|discriminate].
+  injection E as Ek Ex. rewrite <- Ek, <- Ex in Es'. rewrite <- Ex in Hsize. cbn [o_dgrams] in *.
+  assert (F : kA s' = k1 /\ wire (s1 s') = wire (s1 s) ++ o) by (rewrite Es'; split; reflexivity).
+  destruct F as (F4 & F5).
+  destruct (probe_fires (kA s) _ t k1 nx o HiA H0 Hpw Hdue Hfl) as ((d & segs1 & w1 & Hd & Ed & Hw1 & Hcmd & _) & _).
+  assert (Hdw : In d (wire (s1 s'))) by (rewrite F5; apply in_or_app; right; exact Hd).
+  destruct (proj1 (Forall_forall _ _) (L0_data _ Hl') d Hdw) as (segs2 & Ed2 & Hsegs2).
+  assert (HF : Forall2 pg_same_wire segs1 segs2).
+  { apply pg_decode_uniq; [congruence|]. rewrite <- Ed.
+    pose proof (proj1 (Forall_forall _ _) Hsize d Hd) as Hb. rewrite <- Ek, <- F4 in Hb.
+    pose proof (I_mtu _ HiA'). unfold c_mtuLimit, W32 in *. lia. }
+  destruct (ns_F2_in _ _ _ _ _ HF w1 Hw1) as (w2 & Hw2 & (_ & Rcmd & _)).
+  exists d, segs2, w2. split; [unfold new_wire; rewrite F5, ns_skipn_app_len; exact Hd|].
+  split; [exact Ed2|]. split; [exact Hsegs2|]. split; [exact Hw2|congruence].
+Qed.
+
+(* C03's probe round: a closed window re-opens *)
+Theorem c02_probe_round : forall s t,
+  reach2 s -> no_wrap (numbered_of s) -> probe_inv (kA s) -> is_u32 t -> rmt_wnd (kA s) = 0 -> b8 s ->
+  exists s', probe_round s t = Some s' /\ reach2 s' /\ 0 < rmt_wnd (kA s').
+Proof.
+  intros s t Hr Hnw Hp Ht H0 Hb8. apply pg_reach_iff in Hr. unfold probe_round.
+  (* the two flushes of A *)
+  destruct (pg_step_total s _ Hr (pg_flushA_ev_ok s t Ht)) as (s_1 & E1). rewrite E1. cbn [bind2].
+  destruct (pg_flushA_zero s t s_1 Hr Ht H0 Hp E1) as (R1 & B1 & N1 & Z1 & P1 & Q1 & o1 & W1).
+  set (t2 := u32 (ts_probe (kA s_1))).
+  assert (Ht2 : is_u32 t2) by apply u32_range.
+  destruct (pg_step_total s_1 _ R1 (pg_flushA_ev_ok s_1 t2 Ht2)) as (s_2 & E2). rewrite E2. cbn [bind2].
+  destruct (pg_flushA_zero s_1 t2 s_2 R1 Ht2 Z1 Q1 E2) as (R2 & B2 & N2 & Z2 & P2 & Q2 & o2 & W2).
+  assert (Hnw2 : no_wrap (numbered_of s_2)) by (rewrite N2, N1; exact Hnw).
+  assert (Hdue : itimediff t2 (ts_probe (kA s_1)) >= 0).
+  { unfold t2. rewrite itimediff_u32_l, itimediff_self. lia. }
+  destruct (pg_flush_wask s_1 t2 s_2 R1 Ht2 Hnw2 Z1 P1 Hdue E2) as (dw & segs & w & Hdw & Edw & Hsegs & Hw & Hcmd).
+  (* delivery to B *)
+  assert (Enw : new_wire s s_2 = o1 ++ o2).
+  { unfold new_wire. rewrite W2, W1, <- app_assoc, ns_skipn_app_len. reflexivity. }
+  assert (Hin3 : forall d, In d (new_wire s s_2) -> In d (wire (s1 s_2))) by (intros d Hd; exact (pg_in_skipn _ _ _ _ Hd)).
+  destruct (pg_deliver_b_total t (new_wire s s_2) s_2 R2 Ht Hin3) as (s_3 & E3 & R3 & A3 & out3 & W3).
+  rewrite E3. cbn [bind2].
+  set (n0 := length (wireB s_2)).
+  destruct (pg_deliver_b_omega t n0 _ s_2 s_3 E3 R2 Hnw2 Ht Hin3 (le_n _)) as (_ & Hhit).
+  assert (O3 : pg_omega n0 s_3).
+  { apply (Hhit dw segs w); try assumption. rewrite Enw. apply in_or_app. right.
+    unfold new_wire in Hdw. rewrite W2, ns_skipn_app_len in Hdw. exact Hdw. }
+  destruct (pg_frameA_isn _ _ A3) as (I3 & N3 & _).
+  assert (Hnw3 : no_wrap (numbered_of s_3)) by (rewrite N3; exact Hnw2).
+  assert (Hn3 : (n0 <= length (wireB s_3))%nat) by (rewrite W3, app_length; unfold n0; lia).
+  (* the drain *)
+  unfold b_drain.
+  destruct (pg_drain_total (length (rcv_queue (kB s_3)) + length (rcv_buf (kB s_3))) s_3 R3) as (s_4 & E4 & R4).
+  rewrite E4. cbn [bind2].
+  destruct (pg_drain_frame _ s_3 s_4 E4 R3) as (_ & A4 & out4 & W4).
+  destruct (pg_frameA_isn _ _ A4) as (I4 & N4 & X4).
+  assert (Hnw4 : no_wrap (numbered_of s_4)) by (rewrite N4; exact Hnw3).
+  pose proof (pg_drain_omega _ n0 s_3 s_4 E4 R3 Hnw3 Hn3 O3) as O4.
+  assert (Hp4 : peeksize (kB s_4) < 0) by (apply (pg_drain_done _ s_3 s_4 E4); lia).
+  destruct (pg_drain_props _ s_3 s_4 E4 R3 Hnw3) as (_ & _ & M4 & _).
+  destruct (pg_deliver_b t 0 n0 _ s_2 s_3 E3 R2 Hnw2 Ht Hin3 (le_n _)) as (_ & _ & M3 & _).
+  assert (Hroom : ~ pg_full (kB s_4)).
+  { assert (Hb84 : b8 s_4).
+    { unfold b8 in *. rewrite N4, N3, N2, N1.
+      destruct M4 as (_ & _ & _ & T4 & _). destruct M3 as (_ & _ & _ & T3 & _).
+      destruct B2 as (B21 & _). destruct B1 as (B11 & _). rewrite T4, T3, B21, B11. exact Hb8. }
+    pose proof (pg_drained_room s_4 R4 Hnw4 Hp4 Hb84). unfold pg_full. lia. }
+  (* B's flush *)
+  destruct (pg_step_total s_4 _ R4 (pg_flushB_ev_ok s_4 t Ht)) as (s_5 & E5). rewrite E5. cbn [bind2].
+  assert (R5 : pg_reach s_5) by (eapply pr_step; [exact R4|exact (pg_flushB_ev_ok s_4 t Ht)|exact E5]).
+  pose proof (pg_link_reach s_4 R4 Hnw4) as L4.
+  assert (Hn4 : (n0 <= length (wireB s_4))%nat) by (rewrite W4, app_length; lia).
+  pose proof (pg_omega_flush s_4 t s_5 n0 R4 L4 Ht E5 Hn4 O4 Hroom) as Hwl.
+  (* delivery to A *)
+  assert (Hin6 : forall d, In d (new_wireB s_2 s_5) -> In d (wireB s_5)) by (intros d Hd; exact (pg_in_skipn _ _ _ _ Hd)).
+  destruct (pg_deliver_a_total t (new_wireB s_2 s_5) s_5 R5 Ht Hin6) as (s' & E6 & R6).
+  exists s'. split; [exact E6|]. split; [apply pg_reach_iff; exact R6|].
+  exact (pg_deliver_a_wnd t _ s_5 s' E6 R5 Ht Hin6 Hwl).
+Qed.
+
+(* ================================================================== *)
+(* 9. everything accepted so far, as a list                            *)
+(* ================================================================== *)
+Lemma pg_flush_app k ft now k' nx o :
+  flush k ft now = Ok (k', nx, o) ->
+  exists pre, snd_queue k = pre ++ snd_queue k' /\
+              map pay (skipn (length (snd_buf k)) (snd_buf k')) = map pay pre.
+Proof.
+  intros Hfl.
+  destruct (lv_flush_spec _ _ _ _ _ _ Hfl)
+    as (h1 & sq & sb & nxt & ns & sb' & _ & _ & _ & _ & E4 & Hrel & _ & _ & _ & _ & Fq & Fb & _).
+  assert (H4 : exists pre adm, snd_queue k = pre ++ sq /\ sb = snd_buf k ++ adm /\ map pay adm = map pay pre).
+  { unfold lv_ph4 in E4. destruct (ft =? FLUSH_FULL).
+    - destruct (ns_admit_spec _ _ _ _ _ _ _ _ _ _ _ E4) as (pre & adm & A1 & A2 & A3).
+      exists pre, adm. split; [exact A1|]. split; [exact A2|exact (ns_adm_pay _ _ _ A3)].
+    - inversion E4; subst. exists [], []. rewrite app_nil_r. auto. }
+  destruct H4 as (pre & adm & A1 & A2 & A3).
+  exists pre. rewrite Fq, Fb. split; [exact A1|].
+  rewrite A2 in Hrel. destruct (Forall2_app_inv_l _ _ Hrel) as (l1 & l2 & K1 & K2 & El).
+  rewrite El, (ns_F2_length _ _ _ _ _ K1), ns_skipn_app_len, <- A3.
+  clear -K2. induction K2 as [|a b t t' (_ & Hd & Hf & _) _ IH]; [reflexivity|].
+  cbn [map]. rewrite IH. unfold pay. rewrite Hd, Hf. reflexivity.
+Qed.
+
+Lemma pg_newly_app g k o k' x :
+  sender_inv g k -> op_ok32 o -> (forall b, o <> OSend b) -> step k o = Ok (k', x) ->
+  newly_numbered k k' ++ map pay (snd_queue k') = map pay (snd_queue k).
+Proof.
+  intros Hsi [Hop _] Hns Hstep. pose proof (SI_inv _ _ Hsi) as Hinv.
+  assert (Hquiet : forall k1, snd_queue k1 = snd_queue k -> snd_buf k1 = snd_buf k -> snd_una k1 = snd_una k ->
+            k' = k1 -> newly_numbered k k' ++ map pay (snd_queue k') = map pay (snd_queue k)).
+  { intros k1 E1 E2 E3 ->. rewrite (ns_newly_nil k k1 Hinv E3 E2), E1. reflexivity. }
+  assert (Hflush : forall k1 j ft now k2 nx o2, (j <= length (snd_buf k))%nat ->
+            snd_una k1 = u32 (snd_una k + Z.of_nat j) -> length (snd_buf k1) = (length (snd_buf k) - j)%nat ->
+            snd_queue k1 = snd_queue k -> snd_una k2 = snd_una k1 -> flush k1 ft now = Ok (k2, nx, o2) -> k' = k2 ->
+            newly_numbered k k' ++ map pay (snd_queue k') = map pay (snd_queue k)).
+  { intros k1 j ft now k2 nx o2 Hj Hu Hl Hq Hu2 Hfl ->.
+    destruct (pg_flush_app k1 ft now k2 nx o2 Hfl) as (pre & P1 & P2).
+    rewrite (ns_newly_shift k k2 j Hinv Hj) by congruence.
+    rewrite <- Hl, P2, <- Hq, P1, map_app. reflexivity. }
+  assert (Hfu : forall k1 ft now k2 nx o2, inv k1 -> flush k1 ft now = Ok (k2, nx, o2) -> snd_una k2 = snd_una k1).
+  { intros k1 ft now k2 nx o2 Hi1 Hfl. exact (proj1 (pg_flush_len k1 ft now k2 nx o2 Hi1 Hfl)). }
+  destruct o as [b|n|d reg nd now|full now|now|now|m|nd iv rs nc]; cbn [step op_ok] in *.
+  - exfalso. exact (Hns b eq_refl).
+  - pose proof (ns_sf_recv k n) as Hsf. destruct (recv k n) as [[k1 r] d]. cbn [fst] in Hsf.
+    inversion Hstep; subst k' x. destruct Hsf as (Sq & Sb & Su & _). apply (Hquiet k1); auto.
+  - unfold input in Hstep.
+    destruct (input_pre_ok k d reg nd now Hinv Hop) as (k1 & r & fr & Hpre & Hinv1 & _).
+    rewrite Hpre in Hstep.
+    pose proof (ns_input_pre_pre k d reg nd now k1 r fr Hop Hpre) as Hp.
+    destruct (ns_pre_sender g k k1 Hsi Hp Hinv1) as (_ & _ & j & Hj & Hu & Hl).
+    pose proof Hp as (_ & Hq & _).
+    destruct fr.
+    + inversion Hstep; subst k' x.
+      rewrite (ns_newly_shift k k1 j Hinv Hj Hu), <- Hl, skipn_all, Hq. reflexivity.
+    + destruct (flush k1 FLUSH_ACKONLY now) as [[[k2 nx] o]|w] eqn:Hfl; [|discriminate].
+      inversion Hstep; subst k' x. exact (Hflush k1 j _ now k2 nx o Hj Hu Hl Hq (Hfu _ _ _ _ _ _ Hinv1 Hfl) Hfl eq_refl).
+    + destruct (flush k1 FLUSH_FULL now) as [[[k2 nx] o]|w] eqn:Hfl; [|discriminate].
+      inversion Hstep; subst k' x. exact (Hflush k1 j _ now k2 nx o Hj Hu Hl Hq (Hfu _ _ _ _ _ _ Hinv1 Hfl) Hfl eq_refl).
+  - destruct (flush k (if full then FLUSH_FULL else FLUSH_ACKONLY) now) as [[[k2 nx] o]|w] eqn:Hfl; [|discriminate].
+    inversion Hstep; subst k' x.
+    apply (Hflush k 0%nat (if full then FLUSH_FULL else FLUSH_ACKONLY) now k2 nx o); try reflexivity; [lia| |lia|exact (Hfu _ _ _ _ _ _ Hinv Hfl)|exact Hfl].
+    cbn [Z.of_nat]. rewrite Z.add_0_r, u32_id by exact (I_una_u32 _ Hinv). reflexivity.
+  - unfold update in Hstep.
+    set (k1 := if updated k =? 0 then set_timer k (state k) now 1 else k) in *.
+    set (p := if (itimediff now (ts_flush k1) >=? 10000) || (itimediff now (ts_flush k1) <? -10000)
+              then (set_timer k1 (state k1) now (updated k1), 0) else (k1, itimediff now (ts_flush k1))) in *.
+    assert (H2 : inv (fst p) /\ snd_queue (fst p) = snd_queue k /\ snd_buf (fst p) = snd_buf k /\ snd_una (fst p) = snd_una k).
+    { assert (H1 : inv k1 /\ snd_queue k1 = snd_queue k /\ snd_buf k1 = snd_buf k /\ snd_una k1 = snd_una k).
+      { unfold k1. destruct (updated k =? 0); [split; [apply inv_set_timer; exact Hinv|auto]|auto]. }
+      destruct H1 as (I1 & Q1 & B1 & U1). unfold p.
+      destruct ((itimediff now (ts_flush k1) >=? 10000) || (itimediff now (ts_flush k1) <? -10000)); cbn [fst];
+        [split; [apply inv_set_timer; exact I1|auto]|auto]. }
+    destruct p as [k2 slap]. cbn [fst] in H2. destruct H2 as (I2 & Q2 & B2 & U2).
+    destruct (slap >=? 0).
+    + match type of Hstep with context [flush ?kk FLUSH_FULL now] => set (k3 := kk) in * end.
+      assert (I3 : inv k3) by (apply inv_set_timer; exact I2).
+      destruct (flush k3 FLUSH_FULL now) as [[[k4 nx] o]|w] eqn:Hfl; [|discriminate].
+      inversion Hstep; subst k' x.
+      apply (Hflush k3 0%nat FLUSH_FULL now k4 nx o); try reflexivity; [lia| | |exact Q2|exact (Hfu _ _ _ _ _ _ I3 Hfl)|exact Hfl].
+      * cbn [Z.of_nat]. rewrite Z.add_0_r, u32_id by exact (I_una_u32 _ Hinv). exact U2.
+      * change (snd_buf k3) with (snd_buf k2). rewrite B2. lia.
+    + inversion Hstep; subst k' x. apply (Hquiet k2); auto.
+  - inversion Hstep; subst k' x. apply (Hquiet k); auto.
+  - pose proof (ns_sf_set_mtu k m) as Hsf. destruct (set_mtu k m) as [k1 r]. cbn [fst] in Hsf.
+    inversion Hstep; subst k' x. destruct Hsf as (Sq & Sb & Su & _). apply (Hquiet k1); auto.
+  - inversion Hstep; subst k' x. destruct (ns_sf_set_nodelay k nd iv rs nc) as (Sq & Sb & Su & _).
+    apply (Hquiet (set_nodelay k nd iv rs nc)); auto.
+Qed.
+
+Lemma pg_all_src_len s : length (all_src s) = backlog_len s.
+Proof. unfold all_src, backlog_len. rewrite app_length, map_length. reflexivity. Qed.
+
+(* events other than A's Send *)
+Definition pg_quiet (e : ev) : Prop := match e with EA (OSend _) => False | _ => True end.
+
+(* what a step other than A's Send preserves *)
+Lemma pg_quiet_step s e s' :
+  pg_reach s -> no_wrap_all s -> ev_ok2 s e -> pg_quiet e -> sys2_step s e = Some s' ->
+  pg_reach s' /\ all_src s' = all_src s /\ a_idx s <= a_idx s' /\ rcv_wnd (kB s') = rcv_wnd (kB s) /\
+  (probe_inv (kA s) -> probe_inv (kA s')).
+Proof.
+  intros Hr Hnwa Hok Hq Hst.
+  assert (Hr' : pg_reach s') by (eapply pr_step; eassumption).
+  split; [exact Hr'|].
+  pose proof (pg_no_wrap_all s Hnwa) as Hnw. pose proof (pg_link_reach s Hr Hnw) as Hl.
+  destruct e as [o|o].
+  - destruct (pg_reach_base s Hr) as (_ & _ & Hsi & _).
+    destruct (pg_stepA _ _ _ Hst) as (k' & x & E & Es').
+    assert (Hns : forall b, o <> OSend b) by (intros b Eo; subst o; exact Hq).
+    pose proof (pg_newly_app _ _ _ _ _ Hsi (proj1 Hok) Hns E) as Happ.
+    assert (Hall : all_src s' = all_src s).
+    { unfold all_src, numbered_of, kA. rewrite Es'. cbn [s1 sA gA ghost_sender sg_numbered].
+      rewrite <- app_assoc. fold (kA s). rewrite Happ. reflexivity. }
+    assert (Hnw' : no_wrap (numbered_of s')).
+    { apply pg_no_wrap_all. unfold no_wrap_all. rewrite <- pg_all_src_len, Hall, pg_all_src_len. exact Hnwa. }
+    destruct (pg_link_a s o s' Hr Hl Hok Hst Hnw') as (_ & (B1 & _) & Hmono & _).
+    split; [exact Hall|]. split; [exact Hmono|]. split; [rewrite B1; reflexivity|].
+    assert (F : kA s' = k') by (rewrite Es'; reflexivity). rewrite F.
+    exact (lv_pi_step _ _ _ _ E).
+  - destruct (pg_link_b s o s' Hr Hl Hok Hst) as (_ & HfA & (_ & _ & _ & T4 & _) & _).
+    destruct (pg_frameA_isn s s' HfA) as (_ & G2 & G3). destruct HfA as (F1 & _).
+    split; [unfold all_src; rewrite G2, F1; reflexivity|]. split; [lia|]. split; [exact T4|].
+    rewrite F1. auto.
+Qed.
+
+Lemma pg_quiet_run s evs s' :
+  sys2_run s evs s' -> Forall pg_quiet evs -> pg_reach s -> no_wrap_all s ->
+  pg_reach s' /\ all_src s' = all_src s /\ a_idx s <= a_idx s' /\ rcv_wnd (kB s') = rcv_wnd (kB s) /\
+  (probe_inv (kA s) -> probe_inv (kA s')).
+Proof.
+  induction 1 as [s|s e sa t sb Hok Hst Hrun IH]; intros Hq Hr Hnwa.
+  - split; [exact Hr|]. split; [reflexivity|]. split; [lia|]. split; [reflexivity|auto].
+  - destruct (pg_quiet_step s e sa Hr Hnwa Hok (Forall_inv Hq) Hst) as (R1 & A1 & M1 & W1 & P1).
+    assert (Hnwa' : no_wrap_all sa).
+    { unfold no_wrap_all. rewrite <- pg_all_src_len, A1, pg_all_src_len. exact Hnwa. }
+    destruct (IH (Forall_inv_tail Hq) R1 Hnwa') as (R2 & A2 & M2 & W2 & P2).
+    split; [exact R2|]. split; [congruence|]. split; [lia|]. split; [congruence|auto].
+Qed.
+
+(* ---- the rounds as event lists ---- *)
+Lemma pg_run_app s e1 s1 e2 s2 : sys2_run s e1 s1 -> sys2_run s1 e2 s2 -> sys2_run s (e1 ++ e2) s2.
+Proof.
+  induction 1 as [s|s e sa t sb Hok Hst Hrun IH]; intros H2; [exact H2|].
+  cbn [app]. eapply run2_cons; [exact Hok|exact Hst|apply IH; exact H2].
+Qed.
+
+Lemma pg_run_one s e s' : ev_ok2 s e -> sys2_step s e = Some s' -> sys2_run s [e] s'.
+Proof. intros Hok Hst. eapply run2_cons; [exact Hok|exact Hst|constructor]. Qed.
+
+Lemma pg_drain_run n : forall s s', drain n s = Some s' ->
+  exists evs, sys2_run s evs s' /\ Forall pg_quiet evs.
+Proof.
+  induction n as [|n IH]; intros s s' Hd; cbn [drain] in Hd.
+  - inversion Hd; subst. exists []. split; constructor.
+  - destruct (peeksize (kB s) <? 0); [inversion Hd; subst; exists []; split; constructor|].
+    destruct (sys2_step s (EB (ORecv (peeksize (kB s))))) as [sa|] eqn:Hst; [|discriminate]. cbn [bind2] in Hd.
+    destruct (IH sa s' Hd) as (evs & Hrun & Hq).
+    exists (EB (ORecv (peeksize (kB s))) :: evs). split; [|constructor; [exact I|exact Hq]].
+    eapply run2_cons; [apply pg_recv_ev_ok|exact Hst|exact Hrun].
+Qed.
+
+Lemma pg_deliver_b_run t : forall ds s s',
+  deliver (fun d => EB (OInput d true false t)) ds s = Some s' -> pg_reach s -> is_u32 t ->
+  (forall d, In d ds -> In d (wire (s1 s))) ->
+  exists evs, sys2_run s evs s' /\ Forall pg_quiet evs.
+Proof.
+  induction ds as [|d0 ds IH]; intros s s' Hd Hr Ht Hin; cbn [deliver] in Hd.
+  - inversion Hd; subst. exists []. split; constructor.
+  - destruct (sys2_step s (EB (OInput d0 true false t))) as [sa|] eqn:Hst; [|discriminate]. cbn [bind2] in Hd.
+    assert (Hok : ev_ok2 s (EB (OInput d0 true false t))) by (apply pg_inputB_ev_ok; [exact Hr|exact Ht|apply Hin; left; reflexivity]).
+    assert (Hra : pg_reach sa) by (eapply pr_step; eassumption).
+    destruct (pg_stepB _ _ _ Hst) as (k' & x & _ & Es').
+    assert (F3 : wire (s1 sa) = wire (s1 s)) by (subst sa; reflexivity).
+    destruct (IH sa s' Hd Hra Ht) as (evs & Hrun & Hq).
+    { intros d Hdin. rewrite F3. apply Hin. right; exact Hdin. }
+    exists (EB (OInput d0 true false t) :: evs). split; [|constructor; [exact I|exact Hq]].
+    eapply run2_cons; [exact Hok|exact Hst|exact Hrun].
+Qed.
+
+Lemma pg_deliver_a_run t : forall ds s s',
+  deliver (fun d => EA (OInput d true false t)) ds s = Some s' -> pg_reach s -> is_u32 t ->
+  (forall d, In d ds -> In d (wireB s)) ->
+  exists evs, sys2_run s evs s' /\ Forall pg_quiet evs.
+Proof.
+  induction ds as [|d0 ds IH]; intros s s' Hd Hr Ht Hin; cbn [deliver] in Hd.
+  - inversion Hd; subst. exists []. split; constructor.
+  - destruct (sys2_step s (EA (OInput d0 true false t))) as [sa|] eqn:Hst; [|discriminate]. cbn [bind2] in Hd.
+    assert (Hok : ev_ok2 s (EA (OInput d0 true false t))) by (apply pg_inputA_ev_ok; [exact Hr|exact Ht|apply Hin; left; reflexivity]).
+    assert (Hra : pg_reach sa) by (eapply pr_step; eassumption).
+    destruct (pg_stepA _ _ _ Hst) as (k' & x & _ & Es').
+    assert (Fw : wireB sa = wireB s) by (subst sa; reflexivity).
+    destruct (IH sa s' Hd Hra Ht) as (evs & Hrun & Hq).
+    { intros d Hdin. rewrite Fw. apply Hin. right; exact Hdin. }
+    exists (EA (OInput d0 true false t) :: evs). split; [|constructor; [exact I|exact Hq]].
+    eapply run2_cons; [exact Hok|exact Hst|exact Hrun].
+Qed.
+
+(* the healed round IS a run: a concrete finite list of admissible events *)
+Theorem c02_round_is_run : forall s t s', reach2 s -> is_u32 t -> healed_round s t = Some s' ->
+  exists evs, sys2_run s evs s' /\ Forall pg_quiet evs.
+Proof.
+  intros s t s' Hr Ht Hround. apply pg_reach_iff in Hr. unfold healed_round, b_drain in Hround.
+  destruct (drain _ s) as [s_1|] eqn:E1; [|discriminate]. cbn [bind2] in Hround.
+  destruct (sys2_step s_1 (EA (OFlush true t))) as [s_2|] eqn:E2; [|discriminate]. cbn [bind2] in Hround.
+  destruct (deliver _ (new_wire s_1 s_2) s_2) as [s_3|] eqn:E3; [|discriminate]. cbn [bind2] in Hround.
+  destruct (drain _ s_3) as [s_4|] eqn:E4; [|discriminate]. cbn [bind2] in Hround.
+  destruct (sys2_step s_4 (EB (OFlush true t))) as [s_5|] eqn:E5; [|discriminate]. cbn [bind2] in Hround.
+  destruct (pg_drain_run _ s s_1 E1) as (ev1 & Run1 & Q1).
+  pose proof (pg_reach_run _ _ _ Run1 Hr) as R1.
+  pose proof (pg_run_one _ _ _ (pg_flushA_ev_ok s_1 t Ht) E2) as Run2.
+  pose proof (pg_reach_run _ _ _ Run2 R1) as R2.
+  destruct (pg_deliver_b_run t _ s_2 s_3 E3 R2 Ht) as (ev3 & Run3 & Q3).
+  { intros d Hd. exact (pg_in_skipn _ _ _ _ Hd). }
+  pose proof (pg_reach_run _ _ _ Run3 R2) as R3.
+  destruct (pg_drain_run _ s_3 s_4 E4) as (ev4 & Run4 & Q4).
+  pose proof (pg_reach_run _ _ _ Run4 R3) as R4.
+  pose proof (pg_run_one _ _ _ (pg_flushB_ev_ok s_4 t Ht) E5) as Run5.
+  pose proof (pg_reach_run _ _ _ Run5 R4) as R5.
+  destruct (pg_deliver_a_run t _ s_5 s' Hround R5 Ht) as (ev6 & Run6 & Q6).
+  { intros d Hd. exact (pg_in_skipn _ _ _ _ Hd). }
+  exists (ev1 ++ [EA (OFlush true t)] ++ ev3 ++ ev4 ++ [EB (OFlush true t)] ++ ev6).
+  split.
+  - repeat (eapply pg_run_app; [eassumption|]). exact Run6.
+  - repeat (apply Forall_app; split); try assumption; repeat constructor.
+Qed.
+
+Theorem c02_probe_is_run : forall s t s', reach2 s -> is_u32 t -> probe_round s t = Some s' ->
+  exists evs, sys2_run s evs s' /\ Forall pg_quiet evs.
+Proof.
+  intros s t s' Hr Ht Hround. apply pg_reach_iff in Hr. unfold probe_round, b_drain in Hround.
+  destruct (sys2_step s (EA (OFlush true t))) as [s_1|] eqn:E1; [|discriminate]. cbn [bind2] in Hround.
+  destruct (sys2_step s_1 (EA (OFlush true (u32 (ts_probe (kA s_1)))))) as [s_2|] eqn:E2; [|discriminate]. cbn [bind2] in Hround.
+  destruct (deliver _ (new_wire s s_2) s_2) as [s_3|] eqn:E3; [|discriminate]. cbn [bind2] in Hround.
+  destruct (drain _ s_3) as [s_4|] eqn:E4; [|discriminate]. cbn [bind2] in Hround.
+  destruct (sys2_step s_4 (EB (OFlush true t))) as [s_5|] eqn:E5; [|discriminate]. cbn [bind2] in Hround.
+  pose proof (pg_run_one _ _ _ (pg_flushA_ev_ok s t Ht) E1) as Run1.
+  pose proof (pg_reach_run _ _ _ Run1 Hr) as R1.
+  pose proof (pg_run_one _ _ _ (pg_flushA_ev_ok s_1 _ (u32_range _)) E2) as Run2.
+  pose proof (pg_reach_run _ _ _ Run2 R1) as R2.
+  destruct (pg_deliver_b_run t _ s_2 s_3 E3 R2 Ht) as (ev3 & Run3 & Q3).
+  { intros d Hd. exact (pg_in_skipn _ _ _ _ Hd). }
+  pose proof (pg_reach_run _ _ _ Run3 R2) as R3.
+  destruct (pg_drain_run _ s_3 s_4 E4) as (ev4 & Run4 & Q4).
+  pose proof (pg_reach_run _ _ _ Run4 R3) as R4.
+  pose proof (pg_run_one _ _ _ (pg_flushB_ev_ok s_4 t Ht) E5) as Run5.
+  pose proof (pg_reach_run _ _ _ Run5 R4) as R5.
+  destruct (pg_deliver_a_run t _ s_5 s' Hround R5 Ht) as (ev6 & Run6 & Q6).
+  { intros d Hd. exact (pg_in_skipn _ _ _ _ Hd). }
+  exists ([EA (OFlush true t)] ++ [EA (OFlush true (u32 (ts_probe (kA s_1))))] ++ ev3 ++ ev4 ++ [EB (OFlush true t)] ++ ev6).
+  split.
+  - repeat (eapply pg_run_app; [eassumption|]). exact Run6.
+  - repeat (apply Forall_app; split); try assumption; repeat constructor.
+Qed.
+
+(* ================================================================== *)
+(* 10. the backlog drains                                              *)
+(* ================================================================== *)
+Lemma pg_no_wrap_all_eq s s' : all_src s' = all_src s -> no_wrap_all s -> no_wrap_all s'.
+Proof. intros E H. unfold no_wrap_all. rewrite <- pg_all_src_len, E, pg_all_src_len. exact H. Qed.
+
+Lemma pg_b8_of_all s : b8_all s -> b8 s.
+Proof. unfold b8_all, b8, all_src. intros H. apply Forall_app in H. exact (proj1 H). Qed.
+
+Lemma pg_b8_all_eq s s' : all_src s' = all_src s -> rcv_wnd (kB s') = rcv_wnd (kB s) -> b8_all s -> b8_all s'.
+Proof. unfold b8_all. intros E1 E2 H. rewrite E1, E2. exact H. Qed.
+
+(* nothing unacknowledged means nothing outstanding and nothing queued *)
+Lemma pg_unacked_facts s : pg_reach s -> no_wrap_all s ->
+  unacked s = qlen (snd_buf (kA s)) + qlen (snd_queue (kA s)) /\ 0 <= unacked s.
+Proof.
+  intros Hr Hnw. destruct (pg_aidx s Hr (pg_no_wrap_all s Hnw)) as (_ & Ha & HM).
+  unfold unacked, backlog_len, qlen in *. pose proof (Zle_0_nat (length (snd_buf (kA s)))).
+  pose proof (Zle_0_nat (length (snd_queue (kA s)))). lia.
+Qed.
+
+Lemma pg_unacked_zero s : pg_reach s -> no_wrap_all s -> unacked s <= 0 ->
+  snd_buf (kA s) = [] /\ snd_queue (kA s) = [].
+Proof.
+  intros Hr Hnw H0. destruct (pg_unacked_facts s Hr Hnw) as (E & _). unfold qlen in E.
+  split; [destruct (snd_buf (kA s))|destruct (snd_queue (kA s))]; try reflexivity; cbn [length] in E; lia.
+Qed.
+
+(* an A flush as a quiet step, with what it does to the sending side *)
+Lemma pg_flushA_facts s t s' : pg_reach s -> is_u32 t -> sys2_step s (EA (OFlush true t)) = Some s' ->
+  exists nx o, flush (kA s) FLUSH_FULL t = Ok (kA s', nx, o).
+Proof.
+  intros Hr Ht Hst. destruct (pg_stepA _ _ _ Hst) as (k' & x & E & Es').
+  cbn [step] in E. destruct (flush (kA s) FLUSH_FULL t) as [[[k1 nx] o]|e] eqn:Hfl; [|discriminate].
+  injection E as Ek Ex. exists nx, o. rewrite Es', <- Ek. reflexivity.
+Qed.
+
+Lemma pg_flush_rmt k ft now k' nx o : flush k ft now = Ok (k', nx, o) ->
+  rmt_wnd k' = rmt_wnd k /\ nocwnd k' = nocwnd k.
+Proof.
+  intros Hfl. destruct (fl_shape k ft now k' nx o Hfl)
+    as (al & tsp & pw & st & sst & cwn & inc & h1 & st3 & sq & sb & nxt & ns & k5 & sb' & a & Hk' & _).
+  subst k'. split; reflexivity.
+Qed.
+
+Lemma pg_drain_round_progress s :
+  reach2 s -> no_wrap_all s -> b8_all s -> probe_inv (kA s) -> 0 < unacked s ->
+  exists s', drain_round s = Some s' /\ reach2 s' /\ no_wrap_all s' /\ b8_all s' /\ probe_inv (kA s') /\
+             0 <= unacked s' < unacked s.
+Proof.
+  intros Hr2 Hnwa Hb8 Hp Hun. pose proof Hr2 as Hr. apply pg_reach_iff in Hr.
+  assert (Ht0 : is_u32 0) by (unfold is_u32, W32; lia).
+  unfold drain_round.
+  (* (a) re-open the window *)
+  assert (Ha : exists s_a, (if rmt_wnd (kA s) =? 0 then probe_round s 0 else Some s) = Some s_a /\
+            pg_reach s_a /\ all_src s_a = all_src s /\ a_idx s <= a_idx s_a /\
+            rcv_wnd (kB s_a) = rcv_wnd (kB s) /\ probe_inv (kA s_a) /\ 0 < rmt_wnd (kA s_a)).
+  { destruct (rmt_wnd (kA s) =? 0) eqn:E0; lv_b2z.
+    - destruct (c02_probe_round s 0 Hr2 (pg_no_wrap_all s Hnwa) Hp Ht0 E0 (pg_b8_of_all s Hb8)) as (s_a & Ea & _ & Hw).
+      destruct (c02_probe_is_run s 0 s_a Hr2 Ht0 Ea) as (evs & Hrun & Hq).
+      destruct (pg_quiet_run s evs s_a Hrun Hq Hr Hnwa) as (R & A & M & W & P).
+      exists s_a. repeat split; auto.
+    - exists s. destruct (pg_reach_base s Hr) as (HiA & _). pose proof (I_rmt_wnd _ HiA).
+      repeat split; auto; lia. }
+  destruct Ha as (s_a & Ea & Ra & Aa & Ma & Wa & Pa & Hwa). rewrite Ea. cbn [bind2].
+  pose proof (pg_no_wrap_all_eq s s_a Aa Hnwa) as Hnwa_a.
+  (* (b) first flush *)
+  pose proof (pg_flushA_ev_ok s_a 0 Ht0) as Okb.
+  destruct (pg_step_total s_a _ Ra Okb) as (s_b & Eb). rewrite Eb. cbn [bind2].
+  destruct (pg_quiet_step s_a _ s_b Ra Hnwa_a Okb I Eb) as (Rb & Ab & Mb & Wb & Pb).
+  pose proof (pg_no_wrap_all_eq s_a s_b Ab Hnwa_a) as Hnwa_b.
+  destruct (pg_flushA_facts s_a 0 s_b Ra Ht0 Eb) as (nxb & ob & Hflb).
+  destruct (pg_flush_rmt _ _ _ _ _ _ Hflb) as (Hrb & Hncb).
+  destruct (pg_reach_base s_a Ra) as (HiAa & _).
+  pose proof (flush_cwnd_ge1 _ _ _ _ _ _ HiAa Hflb) as Hcwb.
+  (* (c) second flush *)
+  pose proof (pg_flushA_ev_ok s_b 0 Ht0) as Okc.
+  destruct (pg_step_total s_b _ Rb Okc) as (s_c & Ec). rewrite Ec. cbn [bind2].
+  destruct (pg_quiet_step s_b _ s_c Rb Hnwa_b Okc I Ec) as (Rc & Ac & Mc & Wc & Pc).
+  pose proof (pg_no_wrap_all_eq s_b s_c Ac Hnwa_b) as Hnwa_c.
+  destruct (pg_flushA_facts s_b 0 s_c Rb Ht0 Ec) as (nxc & oc & Hflc).
+  destruct (pg_reach_base s_b Rb) as (HiAb & _).
+  assert (Hempty : snd_buf (kA s_c) = [] -> snd_queue (kA s_c) = []).
+  { intros Hbc. destruct (pg_flush_len _ _ _ _ _ _ HiAb Hflc) as (_ & n & L1 & L2).
+    rewrite Hbc in L1. cbn [length] in L1.
+    assert (Hbb : snd_buf (kA s_b) = []) by (destruct (snd_buf (kA s_b)); [reflexivity|cbn [length] in L1; lia]).
+    destruct (snd_queue (kA s_b)) as [|q0 qt] eqn:Eq.
+    - cbn [length] in L2. destruct (snd_queue (kA s_c)); [reflexivity|cbn [length] in L2; lia].
+    - exfalso.
+      assert (Hge : qlen (snd_buf (kA s_c)) >= 1).
+      { apply (resume_admits (kA s_b) 0 (kA s_c) nxc oc HiAb Hbb); [rewrite Eq; discriminate|lia| |exact Hflc].
+        intros Hn. rewrite Hncb in Hn. specialize (Hcwb Hn). lia. }
+      rewrite Hbc, qlen_nil in Hge. lia. }
+  (* (d) the healed round *)
+  assert (Rc2 : reach2 s_c) by (apply pg_reach_iff; exact Rc).
+  assert (Htd : is_u32 (t_due s_c)).
+  { unfold t_due. destruct (snd_buf (kA s_c)); [exact Ht0|apply u32_range]. }
+  destruct (c02_round_total s_c (t_due s_c) Rc2 Htd) as (s' & Ed & Rd2).
+  exists s'. split; [exact Ed|]. split; [exact Rd2|].
+  destruct (c02_round_is_run s_c (t_due s_c) s' Rc2 Htd Ed) as (evs & Hrun & Hq).
+  destruct (pg_quiet_run s_c evs s' Hrun Hq Rc Hnwa_c) as (Rd & Ad & Md & Wd & Pd).
+  pose proof (pg_no_wrap_all_eq s_c s' Ad Hnwa_c) as Hnwa_d.
+  assert (Aall : all_src s' = all_src s) by congruence.
+  assert (Wall : rcv_wnd (kB s') = rcv_wnd (kB s)) by congruence.
+  split; [exact Hnwa_d|]. split; [exact (pg_b8_all_eq s s' Aall Wall Hb8)|]. split; [auto|].
+  destruct (pg_unacked_facts s' Rd Hnwa_d) as (_ & Hge0). split; [exact Hge0|].
+  assert (Hbl : backlog_len s' = backlog_len s) by (rewrite <- !pg_all_src_len, Aall; reflexivity).
+  assert (Hblc : backlog_len s_c = backlog_len s) by (rewrite <- !pg_all_src_len; congruence).
+  unfold unacked in *. rewrite Hbl.
+  destruct (snd_buf (kA s_c)) as [|h rest] eqn:Ebc.
+  - (* nothing outstanding after the flushes: everything had been acknowledged *)
+    specialize (Hempty eq_refl).
+    destruct (pg_unacked_facts s_c Rc Hnwa_c) as (Euc & _). unfold unacked in Euc.
+    rewrite Ebc, Hempty, Hblc in Euc. cbn in Euc.
+    lia.
+  - (* the head is due: strict progress *)
+    assert (Hdue : head_due s_c (t_due s_c)).
+    { unfold head_due, t_due. rewrite Ebc. right. rewrite itimediff_u32_l, itimediff_self. lia. }
+    assert (Hb8c : b8 s_c).
+    { apply pg_b8_of_all. apply (pg_b8_all_eq s s_c); [congruence|congruence|exact Hb8]. }
+    pose proof (c02_round_progress s_c (t_due s_c) s' Rc2 Htd Hdue Hb8c Ed (pg_no_wrap_all s' Hnwa_d)) as Hlt.
+    lia.
+Qed.
+
+Lemma pg_drains_aux : forall m s,
+  unacked s <= Z.of_nat m -> reach2 s -> no_wrap_all s -> b8_all s -> probe_inv (kA s) ->
+  exists n s', (n <= m)%nat /\ drain_rounds n s = Some s' /\ reach2 s' /\ no_wrap_all s' /\ b8_all s' /\
+               snd_buf (kA s') = [] /\ snd_queue (kA s') = [].
+Proof.
+  induction m as [|m IH]; intros s Hm Hr Hnw Hb8 Hp.
+  - exists 0%nat, s. split; [lia|]. split; [reflexivity|]. split; [exact Hr|]. split; [exact Hnw|]. split; [exact Hb8|].
+    apply pg_unacked_zero; [apply pg_reach_iff; exact Hr|exact Hnw|lia].
+  - destruct (Z_le_gt_dec (unacked s) 0) as [H0|Hpos].
+    + exists 0%nat, s. split; [lia|]. split; [reflexivity|]. split; [exact Hr|]. split; [exact Hnw|]. split; [exact Hb8|].
+      apply pg_unacked_zero; [apply pg_reach_iff; exact Hr|exact Hnw|exact H0].
+    + destruct (pg_drain_round_progress s Hr Hnw Hb8 Hp ltac:(lia)) as (s1 & E1 & R1 & N1 & B1 & P1 & U1).
+      destruct (IH s1 ltac:(lia) R1 N1 B1 P1) as (n & s' & Hn & En & R' & N' & B' & E1' & E2').
+      exists (S n), s'. split; [lia|]. cbn [drain_rounds]. rewrite E1. cbn [bind2].
+      split; [exact En|]. split; [exact R'|]. split; [exact N'|]. split; [exact B'|]. split; assumption.
+Qed.
+
+(* C02: a healed network drains the backlog: at most one draining round per unacknowledged segment *)
+Theorem c02_drains : forall s,
+  reach2 s -> no_wrap_all s -> b8_all s -> probe_inv (kA s) ->
+  exists n s', Z.of_nat n <= unacked s /\ drain_rounds n s = Some s' /\ reach2 s' /\
+               waitsnd (kA s') = 0.
+Proof.
+  intros s Hr Hnw Hb8 Hp.
+  destruct (pg_unacked_facts s ltac:(apply pg_reach_iff; exact Hr) Hnw) as (_ & Hge).
+  destruct (pg_drains_aux (Z.to_nat (unacked s)) s ltac:(lia) Hr Hnw Hb8 Hp) as (n & s' & Hn & En & R' & _ & _ & E1 & E2).
+  exists n, s'. split; [lia|]. split; [exact En|]. split; [exact R'|].
+  unfold waitsnd. rewrite E1, E2. reflexivity.
+Qed.
+
+(* ================================================================== *)
+(* 11. drained on both sides: everything accepted has been delivered   *)
+(* ================================================================== *)
+(* fragment counters count down inside a message *)
+Lemma pg_chain_down (src : list (Z * bytes)) (done : nat) (f : Z) :
+  src_wf src -> forall j p0, nth_error src done = Some p0 -> fst p0 = f ->
+  (done + j < length src)%nat -> Z.of_nat j < f ->
+  exists p, nth_error src (done + j) = Some p /\ fst p = f - Z.of_nat j.
+Proof.
+  intros [_ Hch]. induction j as [|j IH]; intros p0 H0 Hf Hlen Hj.
+  - exists p0. rewrite Nat.add_0_r. split; [exact H0|lia].
+  - destruct (IH p0 H0 Hf ltac:(lia) ltac:(lia)) as (p & Hp & Hfp).
+    destruct (nth_error src (done + S j)) as [q|] eqn:Eq; [|apply nth_error_None in Eq; lia].
+    exists q. split; [reflexivity|].
+    replace (done + S j)%nat with (S (done + j)) in Eq by lia.
+    rewrite (Hch _ _ _ Hp Eq ltac:(lia)). lia.
+Qed.
+
+Theorem c02_delivered : forall s,
+  reach2 s -> no_wrap (numbered_of s) -> waitsnd (kA s) = 0 -> peeksize (kB s) < 0 -> b8 s ->
+  rcv_queue (kB s) = [] /\
+  (stream (kA s) = 0 -> rg_delivered (gB (s1 s)) = sg_accepted (gA (s1 s))) /\
+  (stream (kA s) <> 0 -> concat (rg_delivered (gB (s1 s))) = concat (sg_accepted (gA (s1 s)))).
+Proof.
+  intros s Hr2 Hnw Hws Hp Hb8. pose proof Hr2 as Hr. apply pg_reach_iff in Hr.
+  destruct (pg_reach_base s Hr) as (HiA & HiB & Hsi & Hgisn & _).
+  pose proof (pg_reach_receiver s Hr Hnw) as HR.
+  (* A is empty *)
+  assert (Hemp : snd_buf (kA s) = [] /\ snd_queue (kA s) = []).
+  { unfold waitsnd, qlen in Hws. split; [destruct (snd_buf (kA s))|destruct (snd_queue (kA s))]; try reflexivity;
+      cbn [length] in Hws; lia. }
+  destruct Hemp as [Eb Eq].
+  destruct (pg_aidx s Hr Hnw) as (_ & _ & HM). rewrite Eb, qlen_nil in HM.
+  (* so B has everything *)
+  destruct (pg_ridx_sys s Hr Hnw) as (Hrn & Hrr).
+  pose proof (pg_drained_J s Hr Hnw Hp Hb8) as HJ. unfold pg_J in HJ. fold (r_idx s) in HJ.
+  assert (Hr_all : r_idx s = Z.of_nat (length (numbered_of s))) by lia.
+  destruct (RI_nxt _ _ _ HR) as (r & done & Hrd & Hrnx & Hq & Hdel & Hbd).
+  fold (numbered_of s) in Hrd, Hq, Hdel, Hbd. set (N := numbered_of s) in *.
+  assert (Er : r = length N).
+  { apply Nat2Z.inj. rewrite <- Hr_all. symmetry. unfold r_idx. rewrite Hrnx, Hgisn. apply pg_idx_u32.
+    unfold no_wrap, H32, W32 in *. lia. }
+  subst r.
+  assert (Hq' : map pay (rcv_queue (kB s)) = skipn done N).
+  { rewrite Hq. apply firstn_all2. rewrite skipn_length. lia. }
+  pose proof (sender_src_wf _ _ Hsi) as Hwf. fold N in Hwf.
+  pose proof (SI_boundary _ _ Hsi) as Hbnd. fold (kA s) in Hbnd. rewrite Eq in Hbnd. cbn [map] in Hbnd.
+  rewrite app_nil_r in Hbnd. fold N in Hbnd.
+  (* the delivery queue cannot hold a proper message prefix: N ends at a message boundary *)
+  assert (Hrq : rcv_queue (kB s) = []).
+  { destruct (rcv_queue (kB s)) as [|x q] eqn:Erq; [reflexivity|exfalso].
+    assert (Hlen : length (x :: q) = (length N - done)%nat).
+    { rewrite <- (map_length pay), Hq', skipn_length. reflexivity. }
+    cbn [length] in Hlen.
+    assert (Hx : nth_error N done = Some (pay x)).
+    { pose proof (nr_nth_error_skipn _ done 0 N) as H. rewrite <- Hq', Nat.add_0_r in H. cbn [map nth_error] in H.
+      symmetry. exact H. }
+    destruct Hwf as [Hrange Hch].
+    pose proof (proj1 (Forall_forall _ _) Hrange _ (nth_error_In _ _ Hx)) as ((V1 & V2) & _).
+    unfold pay in V1, V2. cbn [fst] in V1, V2.
+    unfold peeksize in Hp. rewrite Erq in Hp.
+    destruct (s_frg x =? 0) eqn:E0; [pose proof (blen_nonneg (s_data x)); lia|]. lv_b2z.
+    destruct (qlen (x :: q) <? u8 (s_frg x + 1)) eqn:E1; lv_b2z;
+      [|pose proof (pg_msg_size_nonneg (x :: q)); lia].
+    unfold u8 in E1. rewrite Z.mod_small in E1 by lia. unfold qlen in E1. cbn [length] in E1.
+    destruct (pg_chain_down N done (s_frg x) (conj Hrange Hch) (length q) (pay x) Hx eq_refl ltac:(lia) ltac:(lia))
+      as (p & Hpn & Hfp).
+    destruct (nr_at_boundary_inv N Hbnd) as [En|(l0 & d & En)]; [rewrite En in Hx; destruct done; discriminate|].
+    assert (Hlast : nth_error N (done + length q) = Some (0, d)).
+    { rewrite En. rewrite nth_error_app2; rewrite En, app_length in Hlen; cbn [length] in Hlen; [|lia].
+      replace (done + length q - length l0)%nat with 0%nat by lia. reflexivity. }
+    rewrite Hlast in Hpn. inversion Hpn; subst p. cbn [fst] in Hfp. lia. }
+  split; [exact Hrq|].
+  assert (Hdone : firstn done N = N).
+  { rewrite Hrq in Hq'. cbn [map] in Hq'. apply firstn_all2.
+    assert (H : length (skipn done N) = 0%nat) by (rewrite <- Hq'; reflexivity). rewrite skipn_length in H. lia. }
+  rewrite Hdone in Hdel, Hbd. split.
+  - intros Hs. rewrite Hdel. pose proof (SI_message _ _ Hsi Hs) as Hm. fold (kA s) in Hm.
+    rewrite Eq in Hm. cbn [map] in Hm. rewrite app_nil_r in Hm. exact Hm.
+  - intros Hs. rewrite Hdel, (concat_messages_boundary _ Hbd).
+    pose proof (SI_stream _ _ Hsi Hs) as Hm. fold (kA s) in Hm. rewrite Eq in Hm. cbn [map concat] in Hm.
+    rewrite app_nil_r in Hm. exact Hm.
+Qed.
+
+(* ... and when B's reader has caught up, everything accepted has been delivered *)
+Theorem c02_drains_delivered : forall s,
+  reach2 s -> no_wrap_all s -> b8_all s -> probe_inv (kA s) ->
+  exists n s' s'', Z.of_nat n <= unacked s /\ drain_rounds n s = Some s' /\ b_drain s' = Some s'' /\
+    reach2 s'' /\ waitsnd (kA s'') = 0 /\ rcv_queue (kB s'') = [] /\
+    (stream (kA s'') = 0 -> rg_delivered (gB (s1 s'')) = sg_accepted (gA (s1 s''))) /\
+    (stream (kA s'') <> 0 -> concat (rg_delivered (gB (s1 s''))) = concat (sg_accepted (gA (s1 s'')))).
+Proof.
+  intros s Hr Hnw Hb8 Hp.
+  destruct (pg_unacked_facts s ltac:(apply pg_reach_iff; exact Hr) Hnw) as (_ & Hge).
+  destruct (pg_drains_aux (Z.to_nat (unacked s)) s ltac:(lia) Hr Hnw Hb8 Hp) as (n & s' & Hn & En & R' & N' & B' & E1 & E2).
+  pose proof R' as Rp. apply pg_reach_iff in Rp.
+  unfold b_drain.
+  destruct (pg_drain_total (length (rcv_queue (kB s')) + length (rcv_buf (kB s'))) s' Rp) as (s'' & Ed & Rd).
+  exists n, s', s''. split; [lia|]. split; [exact En|]. split; [exact Ed|].
+  assert (Rd2 : reach2 s'') by (apply pg_reach_iff; exact Rd). split; [exact Rd2|].
+  destruct (pg_drain_frame _ s' s'' Ed Rp) as (_ & HfA & _).
+  destruct (pg_frameA_isn _ _ HfA) as (_ & G2 & _). pose proof HfA as (F1 & F2 & _).
+  destruct (pg_drain_props _ s' s'' Ed Rp (pg_no_wrap_all s' N')) as (_ & _ & (_ & _ & _ & T4 & _) & _).
+  assert (Hws : waitsnd (kA s'') = 0) by (unfold waitsnd; rewrite F1, E1, E2; reflexivity).
+  split; [exact Hws|].
+  apply c02_delivered; try assumption.
+  - rewrite G2. exact (pg_no_wrap_all s' N').
+  - apply (pg_drain_done _ s' s'' Ed). lia.
+  - unfold b8. rewrite G2, T4. exact (pg_b8_of_all s' B').
+Qed.
+
 Print Assumptions link_step.
 Print Assumptions link_reach.
 Print Assumptions c02_round_total.
 Print Assumptions c02_round_progress.
 Print Assumptions c02_queue_progress.
 Print Assumptions c02_round.
+Print Assumptions c02_probe_round.
+Print Assumptions c02_round_is_run.
+Print Assumptions c02_probe_is_run.
+Print Assumptions c02_drains.
+Print Assumptions c02_delivered.
+Print Assumptions c02_drains_delivered.
